@@ -1,0 +1,440 @@
+//go:build verif
+
+// Contracts for the deductive verifier in /verif (govc). Comment-only: this file adds no code.
+// Written by /verif/tools/gen_relmod_contracts.py.
+package relmod
+
+// ---- C17: the relational image has one row per construct, and nothing else changes
+//
+// Every normaliser is `perwrite`: each of its writes, and each effect of a callee, must hit either an object allocated
+// during the call or a location listed under `modifies` (the Schema's row slices and their backing arrays). The model
+// (*sysl.Module and everything below it) and every position path that already exists are therefore never written.
+
+// Helpers that only read the model and build fresh values (they may panic on attribute shapes they do not know).
+//@ func tags
+//@   pure
+//@   maypanic
+//@ func annos
+//@   pure
+//@   maypanic
+//@   ensures result != nil
+//@ func relmodSourceContexts
+//@   pure
+//@   ensures [one-per-context] len(result) == len(contexts)
+//@   loop 0 invariant [count] len(srcs) == rangeindex + 1 && rangeindex + 1 <= len(contexts)
+//@   loop 0 invariant [own-array] base(srcs) == 0 || fresh(srcs)
+//@ func relmodSourceContext
+//@   pure
+//@   maypanic
+//@ func parseFieldType
+//@   pure
+//@   maypanic
+//@ func parseRestPath
+//@   pure
+//@   ensures [never-fails] result1 == nil
+//@ func parseReturnPayload
+//@   pure
+//@   maypanic
+//@   trusted
+
+// Tags, annotations and source contexts of one construct: one tag row per tag, one annotation row per annotation;
+// the rows already present are kept and nothing else is written.
+//@ func normalizeAppMeta
+//@   requires [schema] s != nil
+//@   requires [model-wellformed] app != nil && app.Name != nil
+//@   modifies s.Tag.App, elems(s.Tag.App), s.Anno.App, elems(s.Anno.App), s.Src.Anno.App, elems(s.Src.Anno.App), s.Src.App, elems(s.Src.App)
+//@   perwrite
+//@   ensures [rows-live-in-own-arrays] (base(s.Tag.App) == old(base(s.Tag.App)) || fresh(s.Tag.App)) && (base(s.Anno.App) == old(base(s.Anno.App)) || fresh(s.Anno.App)) && (base(s.Src.Anno.App) == old(base(s.Src.Anno.App)) || fresh(s.Src.Anno.App)) && (base(s.Src.App) == old(base(s.Src.App)) || fresh(s.Src.App))
+//@   mark @after:arrai/relmod.tags#1 tags
+//@   mark @after:arrai/relmod.annos#1 annos
+//@   ensures [one-row-per-tag] len(s.Tag.App) == old(len(s.Tag.App)) + len(at("tags", callresult))
+//@   ensures [one-row-per-annotation] len(s.Anno.App) == old(len(s.Anno.App)) + len(at("annos", callresult))
+//@   ensures [tag-rows-kept] forall(i, 0, old(len(s.Tag.App)), s.Tag.App[i] == old(s.Tag.App[i]))
+//@   ensures [annotation-rows-kept] forall(i, 0, old(len(s.Anno.App)), s.Anno.App[i] == old(s.Anno.App[i]))
+//@   loop 0 invariant [tags-so-far] len(s.Tag.App) == old(len(s.Tag.App)) + rangeindex + 1 && rangeindex + 1 <= len(tags)
+//@   loop 0 invariant [tag-rows-kept] forall(i, 0, old(len(s.Tag.App)), s.Tag.App[i] == old(s.Tag.App[i]))
+//@   loop 0 invariant [annotation-rows-untouched] forall(i, 0, old(len(s.Anno.App)), s.Anno.App[i] == old(s.Anno.App[i]))
+//@   loop 0 invariant [rows-live-in-own-arrays] (base(s.Tag.App) == old(base(s.Tag.App)) || fresh(s.Tag.App)) && (base(s.Anno.App) == old(base(s.Anno.App)) || fresh(s.Anno.App)) && (base(s.Src.Anno.App) == old(base(s.Src.Anno.App)) || fresh(s.Src.Anno.App)) && (base(s.Src.App) == old(base(s.Src.App)) || fresh(s.Src.App))
+//@   loop 1 invariant [annotations-so-far] len(s.Anno.App) == old(len(s.Anno.App)) + rangeindex + 1
+//@   loop 1 invariant [annotation-rows-kept] forall(i, 0, old(len(s.Anno.App)), s.Anno.App[i] == old(s.Anno.App[i]))
+//@   loop 1 invariant [tags-done] len(s.Tag.App) == old(len(s.Tag.App)) + len(tags)
+//@   loop 1 invariant [tag-rows-still-kept] forall(i, 0, old(len(s.Tag.App)), s.Tag.App[i] == old(s.Tag.App[i]))
+//@   loop 1 invariant [rows-live-in-own-arrays] (base(s.Tag.App) == old(base(s.Tag.App)) || fresh(s.Tag.App)) && (base(s.Anno.App) == old(base(s.Anno.App)) || fresh(s.Anno.App)) && (base(s.Src.Anno.App) == old(base(s.Src.Anno.App)) || fresh(s.Src.Anno.App)) && (base(s.Src.App) == old(base(s.Src.App)) || fresh(s.Src.App))
+
+//@ func normalizeMixinMeta
+//@   requires [schema] s != nil
+//@   requires [model-wellformed] app != nil && mixin != nil && app.Name != nil && mixin.Name != nil
+//@   modifies s.Tag.Mixin, elems(s.Tag.Mixin), s.Anno.Mixin, elems(s.Anno.Mixin), s.Src.Anno.Mixin, elems(s.Src.Anno.Mixin), s.Src.Mixin, elems(s.Src.Mixin)
+//@   perwrite
+//@   ensures [rows-live-in-own-arrays] (base(s.Tag.Mixin) == old(base(s.Tag.Mixin)) || fresh(s.Tag.Mixin)) && (base(s.Anno.Mixin) == old(base(s.Anno.Mixin)) || fresh(s.Anno.Mixin)) && (base(s.Src.Anno.Mixin) == old(base(s.Src.Anno.Mixin)) || fresh(s.Src.Anno.Mixin)) && (base(s.Src.Mixin) == old(base(s.Src.Mixin)) || fresh(s.Src.Mixin))
+//@   mark @after:arrai/relmod.tags#1 tags
+//@   mark @after:arrai/relmod.annos#1 annos
+//@   ensures [one-row-per-tag] len(s.Tag.Mixin) == old(len(s.Tag.Mixin)) + len(at("tags", callresult))
+//@   ensures [one-row-per-annotation] len(s.Anno.Mixin) == old(len(s.Anno.Mixin)) + len(at("annos", callresult))
+//@   ensures [tag-rows-kept] forall(i, 0, old(len(s.Tag.Mixin)), s.Tag.Mixin[i] == old(s.Tag.Mixin[i]))
+//@   ensures [annotation-rows-kept] forall(i, 0, old(len(s.Anno.Mixin)), s.Anno.Mixin[i] == old(s.Anno.Mixin[i]))
+//@   loop 0 invariant [tags-so-far] len(s.Tag.Mixin) == old(len(s.Tag.Mixin)) + rangeindex + 1 && rangeindex + 1 <= len(tags)
+//@   loop 0 invariant [tag-rows-kept] forall(i, 0, old(len(s.Tag.Mixin)), s.Tag.Mixin[i] == old(s.Tag.Mixin[i]))
+//@   loop 0 invariant [annotation-rows-untouched] forall(i, 0, old(len(s.Anno.Mixin)), s.Anno.Mixin[i] == old(s.Anno.Mixin[i]))
+//@   loop 0 invariant [rows-live-in-own-arrays] (base(s.Tag.Mixin) == old(base(s.Tag.Mixin)) || fresh(s.Tag.Mixin)) && (base(s.Anno.Mixin) == old(base(s.Anno.Mixin)) || fresh(s.Anno.Mixin)) && (base(s.Src.Anno.Mixin) == old(base(s.Src.Anno.Mixin)) || fresh(s.Src.Anno.Mixin)) && (base(s.Src.Mixin) == old(base(s.Src.Mixin)) || fresh(s.Src.Mixin))
+//@   loop 1 invariant [annotations-so-far] len(s.Anno.Mixin) == old(len(s.Anno.Mixin)) + rangeindex + 1
+//@   loop 1 invariant [annotation-rows-kept] forall(i, 0, old(len(s.Anno.Mixin)), s.Anno.Mixin[i] == old(s.Anno.Mixin[i]))
+//@   loop 1 invariant [tags-done] len(s.Tag.Mixin) == old(len(s.Tag.Mixin)) + len(tags)
+//@   loop 1 invariant [tag-rows-still-kept] forall(i, 0, old(len(s.Tag.Mixin)), s.Tag.Mixin[i] == old(s.Tag.Mixin[i]))
+//@   loop 1 invariant [rows-live-in-own-arrays] (base(s.Tag.Mixin) == old(base(s.Tag.Mixin)) || fresh(s.Tag.Mixin)) && (base(s.Anno.Mixin) == old(base(s.Anno.Mixin)) || fresh(s.Anno.Mixin)) && (base(s.Src.Anno.Mixin) == old(base(s.Src.Anno.Mixin)) || fresh(s.Src.Anno.Mixin)) && (base(s.Src.Mixin) == old(base(s.Src.Mixin)) || fresh(s.Src.Mixin))
+
+//@ func normalizeEndpointMeta
+//@   requires [schema] s != nil
+//@   requires [model-wellformed] app != nil && ep != nil && app.Name != nil
+//@   modifies s.Tag.Ep, elems(s.Tag.Ep), s.Anno.Ep, elems(s.Anno.Ep), s.Src.Anno.Ep, elems(s.Src.Anno.Ep), s.Src.Ep, elems(s.Src.Ep)
+//@   perwrite
+//@   ensures [rows-live-in-own-arrays] (base(s.Tag.Ep) == old(base(s.Tag.Ep)) || fresh(s.Tag.Ep)) && (base(s.Anno.Ep) == old(base(s.Anno.Ep)) || fresh(s.Anno.Ep)) && (base(s.Src.Anno.Ep) == old(base(s.Src.Anno.Ep)) || fresh(s.Src.Anno.Ep)) && (base(s.Src.Ep) == old(base(s.Src.Ep)) || fresh(s.Src.Ep))
+//@   mark @after:arrai/relmod.tags#1 tags
+//@   mark @after:arrai/relmod.annos#1 annos
+//@   ensures [one-row-per-tag] len(s.Tag.Ep) == old(len(s.Tag.Ep)) + len(at("tags", callresult))
+//@   ensures [one-row-per-annotation] len(s.Anno.Ep) == old(len(s.Anno.Ep)) + len(at("annos", callresult))
+//@   ensures [tag-rows-kept] forall(i, 0, old(len(s.Tag.Ep)), s.Tag.Ep[i] == old(s.Tag.Ep[i]))
+//@   ensures [annotation-rows-kept] forall(i, 0, old(len(s.Anno.Ep)), s.Anno.Ep[i] == old(s.Anno.Ep[i]))
+//@   loop 0 invariant [tags-so-far] len(s.Tag.Ep) == old(len(s.Tag.Ep)) + rangeindex + 1 && rangeindex + 1 <= len(tags)
+//@   loop 0 invariant [tag-rows-kept] forall(i, 0, old(len(s.Tag.Ep)), s.Tag.Ep[i] == old(s.Tag.Ep[i]))
+//@   loop 0 invariant [annotation-rows-untouched] forall(i, 0, old(len(s.Anno.Ep)), s.Anno.Ep[i] == old(s.Anno.Ep[i]))
+//@   loop 0 invariant [rows-live-in-own-arrays] (base(s.Tag.Ep) == old(base(s.Tag.Ep)) || fresh(s.Tag.Ep)) && (base(s.Anno.Ep) == old(base(s.Anno.Ep)) || fresh(s.Anno.Ep)) && (base(s.Src.Anno.Ep) == old(base(s.Src.Anno.Ep)) || fresh(s.Src.Anno.Ep)) && (base(s.Src.Ep) == old(base(s.Src.Ep)) || fresh(s.Src.Ep))
+//@   loop 1 invariant [annotations-so-far] len(s.Anno.Ep) == old(len(s.Anno.Ep)) + rangeindex + 1
+//@   loop 1 invariant [annotation-rows-kept] forall(i, 0, old(len(s.Anno.Ep)), s.Anno.Ep[i] == old(s.Anno.Ep[i]))
+//@   loop 1 invariant [tags-done] len(s.Tag.Ep) == old(len(s.Tag.Ep)) + len(tags)
+//@   loop 1 invariant [tag-rows-still-kept] forall(i, 0, old(len(s.Tag.Ep)), s.Tag.Ep[i] == old(s.Tag.Ep[i]))
+//@   loop 1 invariant [rows-live-in-own-arrays] (base(s.Tag.Ep) == old(base(s.Tag.Ep)) || fresh(s.Tag.Ep)) && (base(s.Anno.Ep) == old(base(s.Anno.Ep)) || fresh(s.Anno.Ep)) && (base(s.Src.Anno.Ep) == old(base(s.Src.Anno.Ep)) || fresh(s.Src.Anno.Ep)) && (base(s.Src.Ep) == old(base(s.Src.Ep)) || fresh(s.Src.Ep))
+
+//@ func normalizeEventMeta
+//@   requires [schema] s != nil
+//@   requires [model-wellformed] app != nil && event != nil && app.Name != nil
+//@   modifies s.Tag.Event, elems(s.Tag.Event), s.Anno.Event, elems(s.Anno.Event), s.Src.Anno.Event, elems(s.Src.Anno.Event), s.Src.Event, elems(s.Src.Event)
+//@   perwrite
+//@   ensures [rows-live-in-own-arrays] (base(s.Tag.Event) == old(base(s.Tag.Event)) || fresh(s.Tag.Event)) && (base(s.Anno.Event) == old(base(s.Anno.Event)) || fresh(s.Anno.Event)) && (base(s.Src.Anno.Event) == old(base(s.Src.Anno.Event)) || fresh(s.Src.Anno.Event)) && (base(s.Src.Event) == old(base(s.Src.Event)) || fresh(s.Src.Event))
+//@   mark @after:arrai/relmod.tags#1 tags
+//@   mark @after:arrai/relmod.annos#1 annos
+//@   ensures [one-row-per-tag] len(s.Tag.Event) == old(len(s.Tag.Event)) + len(at("tags", callresult))
+//@   ensures [one-row-per-annotation] len(s.Anno.Event) == old(len(s.Anno.Event)) + len(at("annos", callresult))
+//@   ensures [tag-rows-kept] forall(i, 0, old(len(s.Tag.Event)), s.Tag.Event[i] == old(s.Tag.Event[i]))
+//@   ensures [annotation-rows-kept] forall(i, 0, old(len(s.Anno.Event)), s.Anno.Event[i] == old(s.Anno.Event[i]))
+//@   loop 0 invariant [tags-so-far] len(s.Tag.Event) == old(len(s.Tag.Event)) + rangeindex + 1 && rangeindex + 1 <= len(tags)
+//@   loop 0 invariant [tag-rows-kept] forall(i, 0, old(len(s.Tag.Event)), s.Tag.Event[i] == old(s.Tag.Event[i]))
+//@   loop 0 invariant [annotation-rows-untouched] forall(i, 0, old(len(s.Anno.Event)), s.Anno.Event[i] == old(s.Anno.Event[i]))
+//@   loop 0 invariant [rows-live-in-own-arrays] (base(s.Tag.Event) == old(base(s.Tag.Event)) || fresh(s.Tag.Event)) && (base(s.Anno.Event) == old(base(s.Anno.Event)) || fresh(s.Anno.Event)) && (base(s.Src.Anno.Event) == old(base(s.Src.Anno.Event)) || fresh(s.Src.Anno.Event)) && (base(s.Src.Event) == old(base(s.Src.Event)) || fresh(s.Src.Event))
+//@   loop 1 invariant [annotations-so-far] len(s.Anno.Event) == old(len(s.Anno.Event)) + rangeindex + 1
+//@   loop 1 invariant [annotation-rows-kept] forall(i, 0, old(len(s.Anno.Event)), s.Anno.Event[i] == old(s.Anno.Event[i]))
+//@   loop 1 invariant [tags-done] len(s.Tag.Event) == old(len(s.Tag.Event)) + len(tags)
+//@   loop 1 invariant [tag-rows-still-kept] forall(i, 0, old(len(s.Tag.Event)), s.Tag.Event[i] == old(s.Tag.Event[i]))
+//@   loop 1 invariant [rows-live-in-own-arrays] (base(s.Tag.Event) == old(base(s.Tag.Event)) || fresh(s.Tag.Event)) && (base(s.Anno.Event) == old(base(s.Anno.Event)) || fresh(s.Anno.Event)) && (base(s.Src.Anno.Event) == old(base(s.Src.Anno.Event)) || fresh(s.Src.Anno.Event)) && (base(s.Src.Event) == old(base(s.Src.Event)) || fresh(s.Src.Event))
+
+//@ func normalizeStatementMeta
+//@   requires [schema] s != nil
+//@   requires [model-wellformed] app != nil && ep != nil && stmt != nil && app.Name != nil
+//@   modifies s.Tag.Stmt, elems(s.Tag.Stmt), s.Anno.Stmt, elems(s.Anno.Stmt), s.Src.Anno.Stmt, elems(s.Src.Anno.Stmt), s.Src.Stmt, elems(s.Src.Stmt)
+//@   perwrite
+//@   ensures [rows-live-in-own-arrays] (base(s.Tag.Stmt) == old(base(s.Tag.Stmt)) || fresh(s.Tag.Stmt)) && (base(s.Anno.Stmt) == old(base(s.Anno.Stmt)) || fresh(s.Anno.Stmt)) && (base(s.Src.Anno.Stmt) == old(base(s.Src.Anno.Stmt)) || fresh(s.Src.Anno.Stmt)) && (base(s.Src.Stmt) == old(base(s.Src.Stmt)) || fresh(s.Src.Stmt))
+//@   mark @after:arrai/relmod.tags#1 tags
+//@   mark @after:arrai/relmod.annos#1 annos
+//@   ensures [one-row-per-tag] len(s.Tag.Stmt) == old(len(s.Tag.Stmt)) + len(at("tags", callresult))
+//@   ensures [one-row-per-annotation] len(s.Anno.Stmt) == old(len(s.Anno.Stmt)) + len(at("annos", callresult))
+//@   ensures [tag-rows-kept] forall(i, 0, old(len(s.Tag.Stmt)), s.Tag.Stmt[i] == old(s.Tag.Stmt[i]))
+//@   ensures [annotation-rows-kept] forall(i, 0, old(len(s.Anno.Stmt)), s.Anno.Stmt[i] == old(s.Anno.Stmt[i]))
+//@   loop 0 invariant [tags-so-far] len(s.Tag.Stmt) == old(len(s.Tag.Stmt)) + rangeindex + 1 && rangeindex + 1 <= len(tags)
+//@   loop 0 invariant [tag-rows-kept] forall(i, 0, old(len(s.Tag.Stmt)), s.Tag.Stmt[i] == old(s.Tag.Stmt[i]))
+//@   loop 0 invariant [annotation-rows-untouched] forall(i, 0, old(len(s.Anno.Stmt)), s.Anno.Stmt[i] == old(s.Anno.Stmt[i]))
+//@   loop 0 invariant [rows-live-in-own-arrays] (base(s.Tag.Stmt) == old(base(s.Tag.Stmt)) || fresh(s.Tag.Stmt)) && (base(s.Anno.Stmt) == old(base(s.Anno.Stmt)) || fresh(s.Anno.Stmt)) && (base(s.Src.Anno.Stmt) == old(base(s.Src.Anno.Stmt)) || fresh(s.Src.Anno.Stmt)) && (base(s.Src.Stmt) == old(base(s.Src.Stmt)) || fresh(s.Src.Stmt))
+//@   loop 1 invariant [annotations-so-far] len(s.Anno.Stmt) == old(len(s.Anno.Stmt)) + rangeindex + 1
+//@   loop 1 invariant [annotation-rows-kept] forall(i, 0, old(len(s.Anno.Stmt)), s.Anno.Stmt[i] == old(s.Anno.Stmt[i]))
+//@   loop 1 invariant [tags-done] len(s.Tag.Stmt) == old(len(s.Tag.Stmt)) + len(tags)
+//@   loop 1 invariant [tag-rows-still-kept] forall(i, 0, old(len(s.Tag.Stmt)), s.Tag.Stmt[i] == old(s.Tag.Stmt[i]))
+//@   loop 1 invariant [rows-live-in-own-arrays] (base(s.Tag.Stmt) == old(base(s.Tag.Stmt)) || fresh(s.Tag.Stmt)) && (base(s.Anno.Stmt) == old(base(s.Anno.Stmt)) || fresh(s.Anno.Stmt)) && (base(s.Src.Anno.Stmt) == old(base(s.Src.Anno.Stmt)) || fresh(s.Src.Anno.Stmt)) && (base(s.Src.Stmt) == old(base(s.Src.Stmt)) || fresh(s.Src.Stmt))
+
+//@ func normalizeParamMeta
+//@   requires [schema] s != nil
+//@   requires [model-wellformed] app != nil && ep != nil && param != nil && app.Name != nil
+//@   modifies s.Tag.Param, elems(s.Tag.Param), s.Anno.Param, elems(s.Anno.Param), s.Src.Anno.Param, elems(s.Src.Anno.Param), s.Src.Param, elems(s.Src.Param)
+//@   perwrite
+//@   ensures [rows-live-in-own-arrays] (base(s.Tag.Param) == old(base(s.Tag.Param)) || fresh(s.Tag.Param)) && (base(s.Anno.Param) == old(base(s.Anno.Param)) || fresh(s.Anno.Param)) && (base(s.Src.Anno.Param) == old(base(s.Src.Anno.Param)) || fresh(s.Src.Anno.Param)) && (base(s.Src.Param) == old(base(s.Src.Param)) || fresh(s.Src.Param))
+//@   mark @after:arrai/relmod.tags#1 tags
+//@   mark @after:arrai/relmod.annos#1 annos
+//@   ensures [one-row-per-tag] len(s.Tag.Param) == old(len(s.Tag.Param)) + len(at("tags", callresult))
+//@   ensures [one-row-per-annotation] len(s.Anno.Param) == old(len(s.Anno.Param)) + len(at("annos", callresult))
+//@   ensures [tag-rows-kept] forall(i, 0, old(len(s.Tag.Param)), s.Tag.Param[i] == old(s.Tag.Param[i]))
+//@   ensures [annotation-rows-kept] forall(i, 0, old(len(s.Anno.Param)), s.Anno.Param[i] == old(s.Anno.Param[i]))
+//@   loop 0 invariant [tags-so-far] len(s.Tag.Param) == old(len(s.Tag.Param)) + rangeindex + 1 && rangeindex + 1 <= len(tags)
+//@   loop 0 invariant [tag-rows-kept] forall(i, 0, old(len(s.Tag.Param)), s.Tag.Param[i] == old(s.Tag.Param[i]))
+//@   loop 0 invariant [annotation-rows-untouched] forall(i, 0, old(len(s.Anno.Param)), s.Anno.Param[i] == old(s.Anno.Param[i]))
+//@   loop 0 invariant [rows-live-in-own-arrays] (base(s.Tag.Param) == old(base(s.Tag.Param)) || fresh(s.Tag.Param)) && (base(s.Anno.Param) == old(base(s.Anno.Param)) || fresh(s.Anno.Param)) && (base(s.Src.Anno.Param) == old(base(s.Src.Anno.Param)) || fresh(s.Src.Anno.Param)) && (base(s.Src.Param) == old(base(s.Src.Param)) || fresh(s.Src.Param))
+//@   loop 1 invariant [annotations-so-far] len(s.Anno.Param) == old(len(s.Anno.Param)) + rangeindex + 1
+//@   loop 1 invariant [annotation-rows-kept] forall(i, 0, old(len(s.Anno.Param)), s.Anno.Param[i] == old(s.Anno.Param[i]))
+//@   loop 1 invariant [tags-done] len(s.Tag.Param) == old(len(s.Tag.Param)) + len(tags)
+//@   loop 1 invariant [tag-rows-still-kept] forall(i, 0, old(len(s.Tag.Param)), s.Tag.Param[i] == old(s.Tag.Param[i]))
+//@   loop 1 invariant [rows-live-in-own-arrays] (base(s.Tag.Param) == old(base(s.Tag.Param)) || fresh(s.Tag.Param)) && (base(s.Anno.Param) == old(base(s.Anno.Param)) || fresh(s.Anno.Param)) && (base(s.Src.Anno.Param) == old(base(s.Src.Anno.Param)) || fresh(s.Src.Anno.Param)) && (base(s.Src.Param) == old(base(s.Src.Param)) || fresh(s.Src.Param))
+
+//@ func normalizeTypeMeta
+//@   requires [schema] s != nil
+//@   requires [model-wellformed] app != nil && typ != nil && app.Name != nil
+//@   modifies s.Tag.Type, elems(s.Tag.Type), s.Anno.Type, elems(s.Anno.Type), s.Src.Anno.Type, elems(s.Src.Anno.Type), s.Src.Type, elems(s.Src.Type)
+//@   perwrite
+//@   ensures [rows-live-in-own-arrays] (base(s.Tag.Type) == old(base(s.Tag.Type)) || fresh(s.Tag.Type)) && (base(s.Anno.Type) == old(base(s.Anno.Type)) || fresh(s.Anno.Type)) && (base(s.Src.Anno.Type) == old(base(s.Src.Anno.Type)) || fresh(s.Src.Anno.Type)) && (base(s.Src.Type) == old(base(s.Src.Type)) || fresh(s.Src.Type))
+//@   mark @after:arrai/relmod.tags#1 tags
+//@   mark @after:arrai/relmod.annos#1 annos
+//@   ensures [one-row-per-tag] len(s.Tag.Type) == old(len(s.Tag.Type)) + len(at("tags", callresult))
+//@   ensures [one-row-per-annotation] len(s.Anno.Type) == old(len(s.Anno.Type)) + len(at("annos", callresult))
+//@   ensures [tag-rows-kept] forall(i, 0, old(len(s.Tag.Type)), s.Tag.Type[i] == old(s.Tag.Type[i]))
+//@   ensures [annotation-rows-kept] forall(i, 0, old(len(s.Anno.Type)), s.Anno.Type[i] == old(s.Anno.Type[i]))
+//@   loop 0 invariant [tags-so-far] len(s.Tag.Type) == old(len(s.Tag.Type)) + rangeindex + 1 && rangeindex + 1 <= len(tags)
+//@   loop 0 invariant [tag-rows-kept] forall(i, 0, old(len(s.Tag.Type)), s.Tag.Type[i] == old(s.Tag.Type[i]))
+//@   loop 0 invariant [annotation-rows-untouched] forall(i, 0, old(len(s.Anno.Type)), s.Anno.Type[i] == old(s.Anno.Type[i]))
+//@   loop 0 invariant [rows-live-in-own-arrays] (base(s.Tag.Type) == old(base(s.Tag.Type)) || fresh(s.Tag.Type)) && (base(s.Anno.Type) == old(base(s.Anno.Type)) || fresh(s.Anno.Type)) && (base(s.Src.Anno.Type) == old(base(s.Src.Anno.Type)) || fresh(s.Src.Anno.Type)) && (base(s.Src.Type) == old(base(s.Src.Type)) || fresh(s.Src.Type))
+//@   loop 1 invariant [annotations-so-far] len(s.Anno.Type) == old(len(s.Anno.Type)) + rangeindex + 1
+//@   loop 1 invariant [annotation-rows-kept] forall(i, 0, old(len(s.Anno.Type)), s.Anno.Type[i] == old(s.Anno.Type[i]))
+//@   loop 1 invariant [tags-done] len(s.Tag.Type) == old(len(s.Tag.Type)) + len(tags)
+//@   loop 1 invariant [tag-rows-still-kept] forall(i, 0, old(len(s.Tag.Type)), s.Tag.Type[i] == old(s.Tag.Type[i]))
+//@   loop 1 invariant [rows-live-in-own-arrays] (base(s.Tag.Type) == old(base(s.Tag.Type)) || fresh(s.Tag.Type)) && (base(s.Anno.Type) == old(base(s.Anno.Type)) || fresh(s.Anno.Type)) && (base(s.Src.Anno.Type) == old(base(s.Src.Anno.Type)) || fresh(s.Src.Anno.Type)) && (base(s.Src.Type) == old(base(s.Src.Type)) || fresh(s.Src.Type))
+
+//@ func normalizeFieldMeta
+//@   requires [schema] s != nil
+//@   requires [model-wellformed] app != nil && field != nil && app.Name != nil
+//@   modifies s.Tag.Field, elems(s.Tag.Field), s.Anno.Field, elems(s.Anno.Field), s.Src.Anno.Field, elems(s.Src.Anno.Field), s.Src.Field, elems(s.Src.Field)
+//@   perwrite
+//@   ensures [rows-live-in-own-arrays] (base(s.Tag.Field) == old(base(s.Tag.Field)) || fresh(s.Tag.Field)) && (base(s.Anno.Field) == old(base(s.Anno.Field)) || fresh(s.Anno.Field)) && (base(s.Src.Anno.Field) == old(base(s.Src.Anno.Field)) || fresh(s.Src.Anno.Field)) && (base(s.Src.Field) == old(base(s.Src.Field)) || fresh(s.Src.Field))
+//@   mark @after:arrai/relmod.tags#1 tags
+//@   mark @after:arrai/relmod.annos#1 annos
+//@   ensures [one-row-per-tag] len(s.Tag.Field) == old(len(s.Tag.Field)) + len(at("tags", callresult))
+//@   ensures [one-row-per-annotation] len(s.Anno.Field) == old(len(s.Anno.Field)) + len(at("annos", callresult))
+//@   ensures [tag-rows-kept] forall(i, 0, old(len(s.Tag.Field)), s.Tag.Field[i] == old(s.Tag.Field[i]))
+//@   ensures [annotation-rows-kept] forall(i, 0, old(len(s.Anno.Field)), s.Anno.Field[i] == old(s.Anno.Field[i]))
+//@   loop 0 invariant [tags-so-far] len(s.Tag.Field) == old(len(s.Tag.Field)) + rangeindex + 1 && rangeindex + 1 <= len(tags)
+//@   loop 0 invariant [tag-rows-kept] forall(i, 0, old(len(s.Tag.Field)), s.Tag.Field[i] == old(s.Tag.Field[i]))
+//@   loop 0 invariant [annotation-rows-untouched] forall(i, 0, old(len(s.Anno.Field)), s.Anno.Field[i] == old(s.Anno.Field[i]))
+//@   loop 0 invariant [rows-live-in-own-arrays] (base(s.Tag.Field) == old(base(s.Tag.Field)) || fresh(s.Tag.Field)) && (base(s.Anno.Field) == old(base(s.Anno.Field)) || fresh(s.Anno.Field)) && (base(s.Src.Anno.Field) == old(base(s.Src.Anno.Field)) || fresh(s.Src.Anno.Field)) && (base(s.Src.Field) == old(base(s.Src.Field)) || fresh(s.Src.Field))
+//@   loop 1 invariant [annotations-so-far] len(s.Anno.Field) == old(len(s.Anno.Field)) + rangeindex + 1
+//@   loop 1 invariant [annotation-rows-kept] forall(i, 0, old(len(s.Anno.Field)), s.Anno.Field[i] == old(s.Anno.Field[i]))
+//@   loop 1 invariant [tags-done] len(s.Tag.Field) == old(len(s.Tag.Field)) + len(tags)
+//@   loop 1 invariant [tag-rows-still-kept] forall(i, 0, old(len(s.Tag.Field)), s.Tag.Field[i] == old(s.Tag.Field[i]))
+//@   loop 1 invariant [rows-live-in-own-arrays] (base(s.Tag.Field) == old(base(s.Tag.Field)) || fresh(s.Tag.Field)) && (base(s.Anno.Field) == old(base(s.Anno.Field)) || fresh(s.Anno.Field)) && (base(s.Src.Anno.Field) == old(base(s.Src.Anno.Field)) || fresh(s.Src.Anno.Field)) && (base(s.Src.Field) == old(base(s.Src.Field)) || fresh(s.Src.Field))
+
+//@ func normalizeViewMeta
+//@   requires [schema] s != nil
+//@   requires [model-wellformed] app != nil && view != nil && app.Name != nil
+//@   modifies s.Tag.View, elems(s.Tag.View), s.Anno.View, elems(s.Anno.View), s.Src.Anno.View, elems(s.Src.Anno.View), s.Src.View, elems(s.Src.View)
+//@   perwrite
+//@   ensures [rows-live-in-own-arrays] (base(s.Tag.View) == old(base(s.Tag.View)) || fresh(s.Tag.View)) && (base(s.Anno.View) == old(base(s.Anno.View)) || fresh(s.Anno.View)) && (base(s.Src.Anno.View) == old(base(s.Src.Anno.View)) || fresh(s.Src.Anno.View)) && (base(s.Src.View) == old(base(s.Src.View)) || fresh(s.Src.View))
+//@   mark @after:arrai/relmod.tags#1 tags
+//@   mark @after:arrai/relmod.annos#1 annos
+//@   ensures [one-row-per-tag] len(s.Tag.View) == old(len(s.Tag.View)) + len(at("tags", callresult))
+//@   ensures [one-row-per-annotation] len(s.Anno.View) == old(len(s.Anno.View)) + len(at("annos", callresult))
+//@   ensures [tag-rows-kept] forall(i, 0, old(len(s.Tag.View)), s.Tag.View[i] == old(s.Tag.View[i]))
+//@   ensures [annotation-rows-kept] forall(i, 0, old(len(s.Anno.View)), s.Anno.View[i] == old(s.Anno.View[i]))
+//@   loop 0 invariant [tags-so-far] len(s.Tag.View) == old(len(s.Tag.View)) + rangeindex + 1 && rangeindex + 1 <= len(tags)
+//@   loop 0 invariant [tag-rows-kept] forall(i, 0, old(len(s.Tag.View)), s.Tag.View[i] == old(s.Tag.View[i]))
+//@   loop 0 invariant [annotation-rows-untouched] forall(i, 0, old(len(s.Anno.View)), s.Anno.View[i] == old(s.Anno.View[i]))
+//@   loop 0 invariant [rows-live-in-own-arrays] (base(s.Tag.View) == old(base(s.Tag.View)) || fresh(s.Tag.View)) && (base(s.Anno.View) == old(base(s.Anno.View)) || fresh(s.Anno.View)) && (base(s.Src.Anno.View) == old(base(s.Src.Anno.View)) || fresh(s.Src.Anno.View)) && (base(s.Src.View) == old(base(s.Src.View)) || fresh(s.Src.View))
+//@   loop 1 invariant [annotations-so-far] len(s.Anno.View) == old(len(s.Anno.View)) + rangeindex + 1
+//@   loop 1 invariant [annotation-rows-kept] forall(i, 0, old(len(s.Anno.View)), s.Anno.View[i] == old(s.Anno.View[i]))
+//@   loop 1 invariant [tags-done] len(s.Tag.View) == old(len(s.Tag.View)) + len(tags)
+//@   loop 1 invariant [tag-rows-still-kept] forall(i, 0, old(len(s.Tag.View)), s.Tag.View[i] == old(s.Tag.View[i]))
+//@   loop 1 invariant [rows-live-in-own-arrays] (base(s.Tag.View) == old(base(s.Tag.View)) || fresh(s.Tag.View)) && (base(s.Anno.View) == old(base(s.Anno.View)) || fresh(s.Anno.View)) && (base(s.Src.Anno.View) == old(base(s.Src.Anno.View)) || fresh(s.Src.Anno.View)) && (base(s.Src.View) == old(base(s.Src.View)) || fresh(s.Src.View))
+
+// One row per construct, carrying the construct's own key columns; earlier rows are kept.
+//@ func normalizeMixin
+//@   requires [schema] s != nil
+//@   requires [model-wellformed] app != nil && mixin != nil && app.Name != nil && mixin.Name != nil
+//@   modifies s.Mixin, elems(s.Mixin), s.Tag.Mixin, elems(s.Tag.Mixin), s.Anno.Mixin, elems(s.Anno.Mixin), s.Src.Anno.Mixin, elems(s.Src.Anno.Mixin), s.Src.Mixin, elems(s.Src.Mixin)
+//@   perwrite
+//@   ensures [rows-live-in-own-arrays] (base(s.Mixin) == old(base(s.Mixin)) || fresh(s.Mixin)) && (base(s.Tag.Mixin) == old(base(s.Tag.Mixin)) || fresh(s.Tag.Mixin)) && (base(s.Anno.Mixin) == old(base(s.Anno.Mixin)) || fresh(s.Anno.Mixin)) && (base(s.Src.Anno.Mixin) == old(base(s.Src.Anno.Mixin)) || fresh(s.Src.Anno.Mixin)) && (base(s.Src.Mixin) == old(base(s.Src.Mixin)) || fresh(s.Src.Mixin))
+//@   ensures [one-row] len(s.Mixin) == old(len(s.Mixin)) + 1 && s.Mixin[len(s.Mixin)-1].AppName == old(app.Name.Part) && s.Mixin[len(s.Mixin)-1].MixinName == old(mixin.Name.Part)
+//@   ensures [rows-kept] forall(i, 0, old(len(s.Mixin)), s.Mixin[i] == old(s.Mixin[i]))
+
+//@ func normalizeView
+//@   requires [schema] s != nil
+//@   requires [model-wellformed] app != nil && view != nil && app.Name != nil
+//@   modifies s.View, elems(s.View), s.Tag.View, elems(s.Tag.View), s.Anno.View, elems(s.Anno.View), s.Src.Anno.View, elems(s.Src.Anno.View), s.Src.View, elems(s.Src.View)
+//@   perwrite
+//@   ensures [rows-live-in-own-arrays] (base(s.View) == old(base(s.View)) || fresh(s.View)) && (base(s.Tag.View) == old(base(s.Tag.View)) || fresh(s.Tag.View)) && (base(s.Anno.View) == old(base(s.Anno.View)) || fresh(s.Anno.View)) && (base(s.Src.Anno.View) == old(base(s.Src.Anno.View)) || fresh(s.Src.Anno.View)) && (base(s.Src.View) == old(base(s.Src.View)) || fresh(s.Src.View))
+//@   ensures [one-row] len(s.View) == old(len(s.View)) + 1 && s.View[len(s.View)-1].AppName == old(app.Name.Part) && s.View[len(s.View)-1].ViewName == viewName
+//@   ensures [rows-kept] forall(i, 0, old(len(s.View)), s.View[i] == old(s.View[i]))
+
+//@ func normalizeField
+//@   requires [schema] s != nil
+//@   requires [model-wellformed] app != nil && field != nil && app.Name != nil
+//@   modifies s.Field, elems(s.Field), s.Tag.Field, elems(s.Tag.Field), s.Anno.Field, elems(s.Anno.Field), s.Src.Anno.Field, elems(s.Src.Anno.Field), s.Src.Field, elems(s.Src.Field)
+//@   perwrite
+//@   ensures [rows-live-in-own-arrays] (base(s.Field) == old(base(s.Field)) || fresh(s.Field)) && (base(s.Tag.Field) == old(base(s.Tag.Field)) || fresh(s.Tag.Field)) && (base(s.Anno.Field) == old(base(s.Anno.Field)) || fresh(s.Anno.Field)) && (base(s.Src.Anno.Field) == old(base(s.Src.Anno.Field)) || fresh(s.Src.Anno.Field)) && (base(s.Src.Field) == old(base(s.Src.Field)) || fresh(s.Src.Field))
+//@   ensures [one-row] len(s.Field) == old(len(s.Field)) + 1 && s.Field[len(s.Field)-1].AppName == old(app.Name.Part) && s.Field[len(s.Field)-1].TypeName == typeName && s.Field[len(s.Field)-1].FieldName == fieldName && s.Field[len(s.Field)-1].FieldOpt == old(field.Opt)
+//@   ensures [rows-kept] forall(i, 0, old(len(s.Field)), s.Field[i] == old(s.Field[i]))
+
+// A type gives one Type row, plus one Table / Alias / Enum row according to its kind, plus one Field row per field.
+//@ func normalizeType
+//@   requires [schema] s != nil
+//@   requires [model-wellformed] app != nil && typ != nil && app.Name != nil
+//@   modifies s.Type, elems(s.Type), s.Table, elems(s.Table), s.Alias, elems(s.Alias), s.Enum, elems(s.Enum), s.Field, elems(s.Field), s.Tag.Type, elems(s.Tag.Type), s.Anno.Type, elems(s.Anno.Type), s.Src.Anno.Type, elems(s.Src.Anno.Type), s.Src.Type, elems(s.Src.Type), s.Tag.Field, elems(s.Tag.Field), s.Anno.Field, elems(s.Anno.Field), s.Src.Anno.Field, elems(s.Src.Anno.Field), s.Src.Field, elems(s.Src.Field)
+//@   perwrite
+//@   ensures [rows-live-in-own-arrays] (base(s.Type) == old(base(s.Type)) || fresh(s.Type)) && (base(s.Table) == old(base(s.Table)) || fresh(s.Table)) && (base(s.Alias) == old(base(s.Alias)) || fresh(s.Alias)) && (base(s.Enum) == old(base(s.Enum)) || fresh(s.Enum)) && (base(s.Field) == old(base(s.Field)) || fresh(s.Field)) && (base(s.Tag.Type) == old(base(s.Tag.Type)) || fresh(s.Tag.Type)) && (base(s.Anno.Type) == old(base(s.Anno.Type)) || fresh(s.Anno.Type)) && (base(s.Src.Anno.Type) == old(base(s.Src.Anno.Type)) || fresh(s.Src.Anno.Type)) && (base(s.Src.Type) == old(base(s.Src.Type)) || fresh(s.Src.Type)) && (base(s.Tag.Field) == old(base(s.Tag.Field)) || fresh(s.Tag.Field)) && (base(s.Anno.Field) == old(base(s.Anno.Field)) || fresh(s.Anno.Field)) && (base(s.Src.Anno.Field) == old(base(s.Src.Anno.Field)) || fresh(s.Src.Anno.Field)) && (base(s.Src.Field) == old(base(s.Src.Field)) || fresh(s.Src.Field))
+//@   ensures [one-type-row] len(s.Type) == old(len(s.Type)) + 1 && s.Type[len(s.Type)-1].AppName == old(app.Name.Part) && s.Type[len(s.Type)-1].TypeName == typeName && s.Type[len(s.Type)-1].TypeOpt == old(typ.Opt)
+//@   ensures [type-rows-kept] forall(i, 0, old(len(s.Type)), s.Type[i] == old(s.Type[i]))
+//@   ensures [table-row-iff-relation] len(s.Table) == old(len(s.Table)) + ite(tagof(old(typ.Type)) == typeid("*sysl.Type_Relation_"), 1, 0)
+//@   ensures [enum-row-iff-enum] len(s.Enum) == old(len(s.Enum)) + ite(tagof(old(typ.Type)) == typeid("*sysl.Type_Enum_"), 1, 0)
+//@   ensures [alias-row-iff-alias-kind] len(s.Alias) == old(len(s.Alias)) + ite(tagof(old(typ.Type)) == typeid("*sysl.Type_Primitive_") || tagof(old(typ.Type)) == typeid("*sysl.Type_Sequence") || tagof(old(typ.Type)) == typeid("*sysl.Type_Set") || tagof(old(typ.Type)) == typeid("*sysl.Type_TypeRef"), 1, 0)
+//@   ensures [one-field-row-per-field] len(s.Field) == old(len(s.Field)) + len(fields)
+//@   assert @call:arrai/relmod.normalizeField [own-field] arg0 == s && arg1 == app && arg2 == typeName && arg3 == field && arg4 == fieldName
+//@   loop 0 invariant [fields-so-far] len(s.Field) == old(len(s.Field)) + rangeindex + 1
+//@   loop 0 invariant [type-row-stays] len(s.Type) == old(len(s.Type)) + 1 && s.Type[len(s.Type)-1].AppName == old(app.Name.Part) && s.Type[len(s.Type)-1].TypeName == typeName && s.Type[len(s.Type)-1].TypeOpt == old(typ.Opt)
+//@   loop 0 invariant [type-rows-stay] forall(i, 0, old(len(s.Type)), s.Type[i] == old(s.Type[i]))
+//@   loop 0 invariant [kind-rows-stay] len(s.Table) == old(len(s.Table)) + ite(tagof(old(typ.Type)) == typeid("*sysl.Type_Relation_"), 1, 0) && len(s.Enum) == old(len(s.Enum)) + ite(tagof(old(typ.Type)) == typeid("*sysl.Type_Enum_"), 1, 0) && len(s.Alias) == old(len(s.Alias)) + ite(tagof(old(typ.Type)) == typeid("*sysl.Type_Primitive_") || tagof(old(typ.Type)) == typeid("*sysl.Type_Sequence") || tagof(old(typ.Type)) == typeid("*sysl.Type_Set") || tagof(old(typ.Type)) == typeid("*sysl.Type_TypeRef"), 1, 0)
+//@   loop 0 invariant [rows-live-in-own-arrays] (base(s.Type) == old(base(s.Type)) || fresh(s.Type)) && (base(s.Table) == old(base(s.Table)) || fresh(s.Table)) && (base(s.Alias) == old(base(s.Alias)) || fresh(s.Alias)) && (base(s.Enum) == old(base(s.Enum)) || fresh(s.Enum)) && (base(s.Field) == old(base(s.Field)) || fresh(s.Field)) && (base(s.Tag.Type) == old(base(s.Tag.Type)) || fresh(s.Tag.Type)) && (base(s.Anno.Type) == old(base(s.Anno.Type)) || fresh(s.Anno.Type)) && (base(s.Src.Anno.Type) == old(base(s.Src.Anno.Type)) || fresh(s.Src.Anno.Type)) && (base(s.Src.Type) == old(base(s.Src.Type)) || fresh(s.Src.Type)) && (base(s.Tag.Field) == old(base(s.Tag.Field)) || fresh(s.Tag.Field)) && (base(s.Anno.Field) == old(base(s.Anno.Field)) || fresh(s.Anno.Field)) && (base(s.Src.Anno.Field) == old(base(s.Src.Anno.Field)) || fresh(s.Src.Anno.Field)) && (base(s.Src.Field) == old(base(s.Src.Field)) || fresh(s.Src.Field))
+
+// A parameter gives one Param row with its name, position and location; a nil type is the 'any' primitive.
+//@ func normalizeParam
+//@   requires [schema] s != nil
+//@   requires [model-wellformed] app != nil && ep != nil && app.Name != nil
+//@   modifies s.Param, elems(s.Param), s.Tag.Param, elems(s.Tag.Param), s.Anno.Param, elems(s.Anno.Param), s.Src.Anno.Param, elems(s.Src.Anno.Param), s.Src.Param, elems(s.Src.Param)
+//@   perwrite
+//@   ensures [rows-live-in-own-arrays] (base(s.Param) == old(base(s.Param)) || fresh(s.Param)) && (base(s.Tag.Param) == old(base(s.Tag.Param)) || fresh(s.Tag.Param)) && (base(s.Anno.Param) == old(base(s.Anno.Param)) || fresh(s.Anno.Param)) && (base(s.Src.Anno.Param) == old(base(s.Src.Anno.Param)) || fresh(s.Src.Anno.Param)) && (base(s.Src.Param) == old(base(s.Src.Param)) || fresh(s.Src.Param))
+//@   ensures [one-row] len(s.Param) == old(len(s.Param)) + 1 && s.Param[len(s.Param)-1].AppName == old(app.Name.Part) && s.Param[len(s.Param)-1].EpName == old(ep.Name) && s.Param[len(s.Param)-1].ParamName == paramName && s.Param[len(s.Param)-1].ParamIndex == paramIndex
+//@   ensures [location-kept-when-given] paramLoc != "" ==> s.Param[len(s.Param)-1].ParamLoc == paramLoc
+//@   ensures [optionality-kept] paramType != nil ==> s.Param[len(s.Param)-1].ParamOpt == old(paramType.Opt)
+//@   ensures [untyped-is-any] paramType == nil ==> !s.Param[len(s.Param)-1].ParamOpt && tagof(s.Param[len(s.Param)-1].ParamType) == typeid("relmod.TypePrimitive")
+//@   ensures [rows-kept] forall(i, 0, old(len(s.Param)), s.Param[i] == old(s.Param[i]))
+
+// An event gives one Event row and one Param row per parameter, in order.
+//@ func normalizeEvent
+//@   requires [schema] s != nil
+//@   requires [model-wellformed] app != nil && event != nil && app.Name != nil && forall(j, 0, len(event.Param), event.Param[j] != nil)
+//@   modifies s.Event, elems(s.Event), s.Tag.Event, elems(s.Tag.Event), s.Anno.Event, elems(s.Anno.Event), s.Src.Anno.Event, elems(s.Src.Anno.Event), s.Src.Event, elems(s.Src.Event), s.Param, elems(s.Param), s.Tag.Param, elems(s.Tag.Param), s.Anno.Param, elems(s.Anno.Param), s.Src.Anno.Param, elems(s.Src.Anno.Param), s.Src.Param, elems(s.Src.Param)
+//@   perwrite
+//@   ensures [rows-live-in-own-arrays] (base(s.Event) == old(base(s.Event)) || fresh(s.Event)) && (base(s.Tag.Event) == old(base(s.Tag.Event)) || fresh(s.Tag.Event)) && (base(s.Anno.Event) == old(base(s.Anno.Event)) || fresh(s.Anno.Event)) && (base(s.Src.Anno.Event) == old(base(s.Src.Anno.Event)) || fresh(s.Src.Anno.Event)) && (base(s.Src.Event) == old(base(s.Src.Event)) || fresh(s.Src.Event)) && (base(s.Param) == old(base(s.Param)) || fresh(s.Param)) && (base(s.Tag.Param) == old(base(s.Tag.Param)) || fresh(s.Tag.Param)) && (base(s.Anno.Param) == old(base(s.Anno.Param)) || fresh(s.Anno.Param)) && (base(s.Src.Anno.Param) == old(base(s.Src.Anno.Param)) || fresh(s.Src.Anno.Param)) && (base(s.Src.Param) == old(base(s.Src.Param)) || fresh(s.Src.Param))
+//@   ensures [one-row] len(s.Event) == old(len(s.Event)) + 1 && s.Event[len(s.Event)-1].AppName == old(app.Name.Part) && s.Event[len(s.Event)-1].EventName == old(event.Name)
+//@   ensures [rows-kept] forall(i, 0, old(len(s.Event)), s.Event[i] == old(s.Event[i]))
+//@   ensures [one-param-row-per-param] len(s.Param) == old(len(s.Param)) + old(len(event.Param))
+//@   assert @call:arrai/relmod.normalizeParam [own-param] arg0 == s && arg1 == app && arg2 == event && arg3 == p.Name && arg4 == p.Type && arg5 == pi && arg6 == ""
+//@   loop 0 invariant [params-so-far] len(s.Param) == old(len(s.Param)) + rangeindex + 1 && rangeindex + 1 <= len(event.Param)
+//@   loop 0 invariant [event-row-stays] len(s.Event) == old(len(s.Event)) + 1 && s.Event[len(s.Event)-1].AppName == old(app.Name.Part) && s.Event[len(s.Event)-1].EventName == old(event.Name)
+//@   loop 0 invariant [event-rows-stay] forall(i, 0, old(len(s.Event)), s.Event[i] == old(s.Event[i]))
+//@   loop 0 invariant [rows-live-in-own-arrays] (base(s.Event) == old(base(s.Event)) || fresh(s.Event)) && (base(s.Tag.Event) == old(base(s.Tag.Event)) || fresh(s.Tag.Event)) && (base(s.Anno.Event) == old(base(s.Anno.Event)) || fresh(s.Anno.Event)) && (base(s.Src.Anno.Event) == old(base(s.Src.Anno.Event)) || fresh(s.Src.Anno.Event)) && (base(s.Src.Event) == old(base(s.Src.Event)) || fresh(s.Src.Event)) && (base(s.Param) == old(base(s.Param)) || fresh(s.Param)) && (base(s.Tag.Param) == old(base(s.Tag.Param)) || fresh(s.Tag.Param)) && (base(s.Anno.Param) == old(base(s.Anno.Param)) || fresh(s.Anno.Param)) && (base(s.Src.Anno.Param) == old(base(s.Src.Anno.Param)) || fresh(s.Src.Anno.Param)) && (base(s.Src.Param) == old(base(s.Src.Param)) || fresh(s.Src.Param))
+
+// A statement gives one Stmt row carrying the position path it was handed (an alt gives one row per choice, each
+// with its own fresh path), every container kind hands each of its children to normalizeStatement with the
+// container's own path, and no position path that already exists is ever written (no []int array is listed).
+//@ func normalizeStatement
+//@   requires [schema] s != nil && cap(stmtIndex) == len(stmtIndex)
+//@   requires [model-wellformed] app != nil && ep != nil && app.Name != nil && stmt != nil
+//@   modifies s.Stmt, elems(s.Stmt), s.Tag.Stmt, elems(s.Tag.Stmt), s.Anno.Stmt, elems(s.Anno.Stmt), s.Src.Anno.Stmt, elems(s.Src.Anno.Stmt), s.Src.Stmt, elems(s.Src.Stmt)
+//@   perwrite
+//@   ensures [rows-live-in-own-arrays] (base(s.Stmt) == old(base(s.Stmt)) || fresh(s.Stmt)) && (base(s.Tag.Stmt) == old(base(s.Tag.Stmt)) || fresh(s.Tag.Stmt)) && (base(s.Anno.Stmt) == old(base(s.Anno.Stmt)) || fresh(s.Anno.Stmt)) && (base(s.Src.Anno.Stmt) == old(base(s.Src.Anno.Stmt)) || fresh(s.Src.Anno.Stmt)) && (base(s.Src.Stmt) == old(base(s.Src.Stmt)) || fresh(s.Src.Stmt))
+//@   ghostset @store:F.relmod.Schema.Stmt row
+//@   ghostset @call:arrai/relmod.normalizeStatement$2 descended
+//@   assert @store:F.relmod.Schema.Stmt [one-own-row] len(stored) == len(target.Stmt) + 1 && stored[len(stored)-1].AppName == app.Name.Part && stored[len(stored)-1].EpName == ep.Name
+//@   assert @store:F.relmod.Schema.Stmt [row-carries-own-path] stored[len(stored)-1].StmtIndex == stmtIndex || (stmt.GetAlt() != nil && len(stored[len(stored)-1].StmtIndex) == len(stmtIndex) + 1 && fresh(base(stored[len(stored)-1].StmtIndex)) && forall(j, 0, len(stmtIndex), stored[len(stored)-1].StmtIndex[j] == stmtIndex[j]))
+//@   assert @call:arrai/relmod.normalizeStatement$2 [children-of-own-container] (stmt.GetCond() != nil && arg0 == stmt.GetCond().Stmt && arg1 == stmtIndex) || (stmt.GetLoop() != nil && arg0 == stmt.GetLoop().Stmt && arg1 == stmtIndex) || (stmt.GetLoopN() != nil && arg0 == stmt.GetLoopN().Stmt && arg1 == stmtIndex) || (stmt.GetForeach() != nil && arg0 == stmt.GetForeach().Stmt && arg1 == stmtIndex) || (stmt.GetGroup() != nil && arg0 == stmt.GetGroup().Stmt && arg1 == stmtIndex) || (stmt.GetAlt() != nil && arg0 == choice.Stmt && len(arg1) == len(stmtIndex) + 1 && arg1[len(stmtIndex)] == i)
+//@   ensures [row-unless-placeholder-or-alt] result == nil && !(old(stmt.GetAction()) != nil && old(stmt.GetAction().Action) == "...") && old(stmt.GetAlt()) == nil ==> ghost("row")
+//@   ensures [containers-descended] result == nil && old(stmt.GetCond() != nil || stmt.GetLoop() != nil || stmt.GetLoopN() != nil || stmt.GetForeach() != nil || stmt.GetGroup() != nil) ==> ghost("descended")
+//@   loop 0 invariant [rows-live-in-own-arrays] (base(s.Stmt) == old(base(s.Stmt)) || fresh(s.Stmt)) && (base(s.Tag.Stmt) == old(base(s.Tag.Stmt)) || fresh(s.Tag.Stmt)) && (base(s.Anno.Stmt) == old(base(s.Anno.Stmt)) || fresh(s.Anno.Stmt)) && (base(s.Src.Anno.Stmt) == old(base(s.Src.Anno.Stmt)) || fresh(s.Src.Anno.Stmt)) && (base(s.Src.Stmt) == old(base(s.Src.Stmt)) || fresh(s.Src.Stmt))
+//@   errprop normalizeStatement$2
+//@   errprop parseReturnPayload
+
+// The children loop: child i of the container is normalised with the path parent+[i], held in a slice of its own.
+//@ func normalizeStatement$2
+//@   requires [schema] s != nil
+//@   requires [model-wellformed] app != nil && ep != nil && app.Name != nil && forall(j, 0, len(children), children[j] != nil)
+//@   modifies s.Stmt, elems(s.Stmt), s.Tag.Stmt, elems(s.Tag.Stmt), s.Anno.Stmt, elems(s.Anno.Stmt), s.Src.Anno.Stmt, elems(s.Src.Anno.Stmt), s.Src.Stmt, elems(s.Src.Stmt)
+//@   perwrite
+//@   ensures [rows-live-in-own-arrays] (base(s.Stmt) == old(base(s.Stmt)) || fresh(s.Stmt)) && (base(s.Tag.Stmt) == old(base(s.Tag.Stmt)) || fresh(s.Tag.Stmt)) && (base(s.Anno.Stmt) == old(base(s.Anno.Stmt)) || fresh(s.Anno.Stmt)) && (base(s.Src.Anno.Stmt) == old(base(s.Src.Anno.Stmt)) || fresh(s.Src.Anno.Stmt)) && (base(s.Src.Stmt) == old(base(s.Src.Stmt)) || fresh(s.Src.Stmt))
+//@   ghostclear @iter:0 visited
+//@   ghostset @call:arrai/relmod.normalizeStatement visited
+//@   assert @call:arrai/relmod.normalizeStatement [child-gets-own-fresh-path] arg1 == s && arg2 == app && arg3 == ep && arg4 == child && fresh(base(arg5)) && cap(arg5) == len(arg5) && len(arg5) == len(parentIndex) + 1 && arg5[len(parentIndex)] == i && forall(j, 0, len(parentIndex), arg5[j] == parentIndex[j])
+//@   loop 0 invariant [rows-live-in-own-arrays] (base(s.Stmt) == old(base(s.Stmt)) || fresh(s.Stmt)) && (base(s.Tag.Stmt) == old(base(s.Tag.Stmt)) || fresh(s.Tag.Stmt)) && (base(s.Anno.Stmt) == old(base(s.Anno.Stmt)) || fresh(s.Anno.Stmt)) && (base(s.Src.Anno.Stmt) == old(base(s.Src.Anno.Stmt)) || fresh(s.Src.Anno.Stmt)) && (base(s.Src.Stmt) == old(base(s.Src.Stmt)) || fresh(s.Src.Stmt))
+//@   loop 0 step [every-child-normalised] ghost("visited")
+//@   errprop normalizeStatement
+
+// An endpoint: the '...' placeholder gives nothing, a pub/sub endpoint gives an Event row, anything else an Ep row,
+// one Param row per method / path / query parameter, and its statements with the one-element paths [i].
+//@ func normalizeEndpoint
+//@   requires [schema] s != nil
+//@   requires [model-wellformed] app != nil && ep != nil && app.Name != nil
+//@   modifies s.Ep, elems(s.Ep), s.Tag.Ep, elems(s.Tag.Ep), s.Anno.Ep, elems(s.Anno.Ep), s.Src.Anno.Ep, elems(s.Src.Anno.Ep), s.Src.Ep, elems(s.Src.Ep), s.Event, elems(s.Event), s.Tag.Event, elems(s.Tag.Event), s.Anno.Event, elems(s.Anno.Event), s.Src.Anno.Event, elems(s.Src.Anno.Event), s.Src.Event, elems(s.Src.Event), s.Param, elems(s.Param), s.Tag.Param, elems(s.Tag.Param), s.Anno.Param, elems(s.Anno.Param), s.Src.Anno.Param, elems(s.Src.Anno.Param), s.Src.Param, elems(s.Src.Param), s.Stmt, elems(s.Stmt), s.Tag.Stmt, elems(s.Tag.Stmt), s.Anno.Stmt, elems(s.Anno.Stmt), s.Src.Anno.Stmt, elems(s.Src.Anno.Stmt), s.Src.Stmt, elems(s.Src.Stmt)
+//@   perwrite
+//@   ensures [rows-live-in-own-arrays] (base(s.Ep) == old(base(s.Ep)) || fresh(s.Ep)) && (base(s.Tag.Ep) == old(base(s.Tag.Ep)) || fresh(s.Tag.Ep)) && (base(s.Anno.Ep) == old(base(s.Anno.Ep)) || fresh(s.Anno.Ep)) && (base(s.Src.Anno.Ep) == old(base(s.Src.Anno.Ep)) || fresh(s.Src.Anno.Ep)) && (base(s.Src.Ep) == old(base(s.Src.Ep)) || fresh(s.Src.Ep)) && (base(s.Event) == old(base(s.Event)) || fresh(s.Event)) && (base(s.Tag.Event) == old(base(s.Tag.Event)) || fresh(s.Tag.Event)) && (base(s.Anno.Event) == old(base(s.Anno.Event)) || fresh(s.Anno.Event)) && (base(s.Src.Anno.Event) == old(base(s.Src.Anno.Event)) || fresh(s.Src.Anno.Event)) && (base(s.Src.Event) == old(base(s.Src.Event)) || fresh(s.Src.Event)) && (base(s.Param) == old(base(s.Param)) || fresh(s.Param)) && (base(s.Tag.Param) == old(base(s.Tag.Param)) || fresh(s.Tag.Param)) && (base(s.Anno.Param) == old(base(s.Anno.Param)) || fresh(s.Anno.Param)) && (base(s.Src.Anno.Param) == old(base(s.Src.Anno.Param)) || fresh(s.Src.Anno.Param)) && (base(s.Src.Param) == old(base(s.Src.Param)) || fresh(s.Src.Param)) && (base(s.Stmt) == old(base(s.Stmt)) || fresh(s.Stmt)) && (base(s.Tag.Stmt) == old(base(s.Tag.Stmt)) || fresh(s.Tag.Stmt)) && (base(s.Anno.Stmt) == old(base(s.Anno.Stmt)) || fresh(s.Anno.Stmt)) && (base(s.Src.Anno.Stmt) == old(base(s.Src.Anno.Stmt)) || fresh(s.Src.Anno.Stmt)) && (base(s.Src.Stmt) == old(base(s.Src.Stmt)) || fresh(s.Src.Stmt))
+//@   ensures [placeholder-gives-nothing] old(ep.Name) == "..." ==> result == nil && len(s.Ep) == old(len(s.Ep)) && len(s.Event) == old(len(s.Event)) && len(s.Param) == old(len(s.Param)) && len(s.Stmt) == old(len(s.Stmt))
+//@   ensures [pubsub-is-an-event] old(ep.Name) != "..." && old(ep.IsPubsub) ==> result == nil && len(s.Event) == old(len(s.Event)) + 1 && len(s.Ep) == old(len(s.Ep))
+//@   ensures [endpoint-row] old(ep.Name) != "..." && !old(ep.IsPubsub) && result == nil ==> len(s.Ep) == old(len(s.Ep)) + 1 && s.Ep[len(s.Ep)-1].AppName == old(app.Name.Part) && s.Ep[len(s.Ep)-1].EpName == old(ep.Name)
+//@   ensures [endpoint-rows-kept] forall(i, 0, old(len(s.Ep)), s.Ep[i] == old(s.Ep[i]))
+//@   ensures [one-param-row-per-param] old(ep.Name) != "..." && !old(ep.IsPubsub) && result == nil ==> len(s.Param) == old(len(s.Param)) + old(len(ep.Param)) + ite(old(ep.RestParams) != nil, old(len(ep.RestParams.UrlParam)) + old(len(ep.RestParams.QueryParam)), 0)
+//@   assert @call:arrai/relmod.normalizeParam [own-param] arg0 == s && arg1 == app && arg2 == ep && arg3 == p.Name && arg4 == p.Type && arg5 == pi
+//@   assert @call:arrai/relmod.normalizeStatement [top-level-statement-path] arg1 == s && arg2 == app && arg3 == ep && arg4 == stmt && fresh(base(arg5)) && len(arg5) == 1 && cap(arg5) == 1 && arg5[0] == i
+//@   ghostclear @iter:3 visited
+//@   ghostset @call:arrai/relmod.normalizeStatement visited
+//@   loop 3 step [every-statement-normalised] ghost("visited")
+//@   loop 0 invariant [params-so-far] len(s.Param) == old(len(s.Param)) + 0 + rangeindex + 1 && rangeindex + 1 <= len(ep.Param)
+//@   loop 0 invariant [endpoint-row-stays] len(s.Ep) == old(len(s.Ep)) + 1 && s.Ep[len(s.Ep)-1].AppName == old(app.Name.Part) && s.Ep[len(s.Ep)-1].EpName == old(ep.Name)
+//@   loop 0 invariant [endpoint-rows-stay] forall(i, 0, old(len(s.Ep)), s.Ep[i] == old(s.Ep[i]))
+//@   loop 0 invariant [rows-live-in-own-arrays] (base(s.Ep) == old(base(s.Ep)) || fresh(s.Ep)) && (base(s.Tag.Ep) == old(base(s.Tag.Ep)) || fresh(s.Tag.Ep)) && (base(s.Anno.Ep) == old(base(s.Anno.Ep)) || fresh(s.Anno.Ep)) && (base(s.Src.Anno.Ep) == old(base(s.Src.Anno.Ep)) || fresh(s.Src.Anno.Ep)) && (base(s.Src.Ep) == old(base(s.Src.Ep)) || fresh(s.Src.Ep)) && (base(s.Event) == old(base(s.Event)) || fresh(s.Event)) && (base(s.Tag.Event) == old(base(s.Tag.Event)) || fresh(s.Tag.Event)) && (base(s.Anno.Event) == old(base(s.Anno.Event)) || fresh(s.Anno.Event)) && (base(s.Src.Anno.Event) == old(base(s.Src.Anno.Event)) || fresh(s.Src.Anno.Event)) && (base(s.Src.Event) == old(base(s.Src.Event)) || fresh(s.Src.Event)) && (base(s.Param) == old(base(s.Param)) || fresh(s.Param)) && (base(s.Tag.Param) == old(base(s.Tag.Param)) || fresh(s.Tag.Param)) && (base(s.Anno.Param) == old(base(s.Anno.Param)) || fresh(s.Anno.Param)) && (base(s.Src.Anno.Param) == old(base(s.Src.Anno.Param)) || fresh(s.Src.Anno.Param)) && (base(s.Src.Param) == old(base(s.Src.Param)) || fresh(s.Src.Param)) && (base(s.Stmt) == old(base(s.Stmt)) || fresh(s.Stmt)) && (base(s.Tag.Stmt) == old(base(s.Tag.Stmt)) || fresh(s.Tag.Stmt)) && (base(s.Anno.Stmt) == old(base(s.Anno.Stmt)) || fresh(s.Anno.Stmt)) && (base(s.Src.Anno.Stmt) == old(base(s.Src.Anno.Stmt)) || fresh(s.Src.Anno.Stmt)) && (base(s.Src.Stmt) == old(base(s.Src.Stmt)) || fresh(s.Src.Stmt))
+//@   loop 1 invariant [params-so-far] len(s.Param) == old(len(s.Param)) + len(ep.Param) + rangeindex + 1 && rangeindex + 1 <= len(ep.RestParams.UrlParam)
+//@   loop 1 invariant [endpoint-row-stays] len(s.Ep) == old(len(s.Ep)) + 1 && s.Ep[len(s.Ep)-1].AppName == old(app.Name.Part) && s.Ep[len(s.Ep)-1].EpName == old(ep.Name)
+//@   loop 1 invariant [endpoint-rows-stay] forall(i, 0, old(len(s.Ep)), s.Ep[i] == old(s.Ep[i]))
+//@   loop 1 invariant [rows-live-in-own-arrays] (base(s.Ep) == old(base(s.Ep)) || fresh(s.Ep)) && (base(s.Tag.Ep) == old(base(s.Tag.Ep)) || fresh(s.Tag.Ep)) && (base(s.Anno.Ep) == old(base(s.Anno.Ep)) || fresh(s.Anno.Ep)) && (base(s.Src.Anno.Ep) == old(base(s.Src.Anno.Ep)) || fresh(s.Src.Anno.Ep)) && (base(s.Src.Ep) == old(base(s.Src.Ep)) || fresh(s.Src.Ep)) && (base(s.Event) == old(base(s.Event)) || fresh(s.Event)) && (base(s.Tag.Event) == old(base(s.Tag.Event)) || fresh(s.Tag.Event)) && (base(s.Anno.Event) == old(base(s.Anno.Event)) || fresh(s.Anno.Event)) && (base(s.Src.Anno.Event) == old(base(s.Src.Anno.Event)) || fresh(s.Src.Anno.Event)) && (base(s.Src.Event) == old(base(s.Src.Event)) || fresh(s.Src.Event)) && (base(s.Param) == old(base(s.Param)) || fresh(s.Param)) && (base(s.Tag.Param) == old(base(s.Tag.Param)) || fresh(s.Tag.Param)) && (base(s.Anno.Param) == old(base(s.Anno.Param)) || fresh(s.Anno.Param)) && (base(s.Src.Anno.Param) == old(base(s.Src.Anno.Param)) || fresh(s.Src.Anno.Param)) && (base(s.Src.Param) == old(base(s.Src.Param)) || fresh(s.Src.Param)) && (base(s.Stmt) == old(base(s.Stmt)) || fresh(s.Stmt)) && (base(s.Tag.Stmt) == old(base(s.Tag.Stmt)) || fresh(s.Tag.Stmt)) && (base(s.Anno.Stmt) == old(base(s.Anno.Stmt)) || fresh(s.Anno.Stmt)) && (base(s.Src.Anno.Stmt) == old(base(s.Src.Anno.Stmt)) || fresh(s.Src.Anno.Stmt)) && (base(s.Src.Stmt) == old(base(s.Src.Stmt)) || fresh(s.Src.Stmt))
+//@   loop 2 invariant [params-so-far] len(s.Param) == old(len(s.Param)) + len(ep.Param) + len(ep.RestParams.UrlParam) + rangeindex + 1 && rangeindex + 1 <= len(ep.RestParams.QueryParam)
+//@   loop 2 invariant [endpoint-row-stays] len(s.Ep) == old(len(s.Ep)) + 1 && s.Ep[len(s.Ep)-1].AppName == old(app.Name.Part) && s.Ep[len(s.Ep)-1].EpName == old(ep.Name)
+//@   loop 2 invariant [endpoint-rows-stay] forall(i, 0, old(len(s.Ep)), s.Ep[i] == old(s.Ep[i]))
+//@   loop 2 invariant [rows-live-in-own-arrays] (base(s.Ep) == old(base(s.Ep)) || fresh(s.Ep)) && (base(s.Tag.Ep) == old(base(s.Tag.Ep)) || fresh(s.Tag.Ep)) && (base(s.Anno.Ep) == old(base(s.Anno.Ep)) || fresh(s.Anno.Ep)) && (base(s.Src.Anno.Ep) == old(base(s.Src.Anno.Ep)) || fresh(s.Src.Anno.Ep)) && (base(s.Src.Ep) == old(base(s.Src.Ep)) || fresh(s.Src.Ep)) && (base(s.Event) == old(base(s.Event)) || fresh(s.Event)) && (base(s.Tag.Event) == old(base(s.Tag.Event)) || fresh(s.Tag.Event)) && (base(s.Anno.Event) == old(base(s.Anno.Event)) || fresh(s.Anno.Event)) && (base(s.Src.Anno.Event) == old(base(s.Src.Anno.Event)) || fresh(s.Src.Anno.Event)) && (base(s.Src.Event) == old(base(s.Src.Event)) || fresh(s.Src.Event)) && (base(s.Param) == old(base(s.Param)) || fresh(s.Param)) && (base(s.Tag.Param) == old(base(s.Tag.Param)) || fresh(s.Tag.Param)) && (base(s.Anno.Param) == old(base(s.Anno.Param)) || fresh(s.Anno.Param)) && (base(s.Src.Anno.Param) == old(base(s.Src.Anno.Param)) || fresh(s.Src.Anno.Param)) && (base(s.Src.Param) == old(base(s.Src.Param)) || fresh(s.Src.Param)) && (base(s.Stmt) == old(base(s.Stmt)) || fresh(s.Stmt)) && (base(s.Tag.Stmt) == old(base(s.Tag.Stmt)) || fresh(s.Tag.Stmt)) && (base(s.Anno.Stmt) == old(base(s.Anno.Stmt)) || fresh(s.Anno.Stmt)) && (base(s.Src.Anno.Stmt) == old(base(s.Src.Anno.Stmt)) || fresh(s.Src.Anno.Stmt)) && (base(s.Src.Stmt) == old(base(s.Src.Stmt)) || fresh(s.Src.Stmt))
+//@   loop 3 invariant [params-done] len(s.Param) == old(len(s.Param)) + len(ep.Param) + ite(ep.RestParams != nil, len(ep.RestParams.UrlParam) + len(ep.RestParams.QueryParam), 0)
+//@   loop 3 invariant [endpoint-row-stays] len(s.Ep) == old(len(s.Ep)) + 1 && s.Ep[len(s.Ep)-1].AppName == old(app.Name.Part) && s.Ep[len(s.Ep)-1].EpName == old(ep.Name)
+//@   loop 3 invariant [endpoint-rows-stay] forall(i, 0, old(len(s.Ep)), s.Ep[i] == old(s.Ep[i]))
+//@   loop 3 invariant [rows-live-in-own-arrays] (base(s.Ep) == old(base(s.Ep)) || fresh(s.Ep)) && (base(s.Tag.Ep) == old(base(s.Tag.Ep)) || fresh(s.Tag.Ep)) && (base(s.Anno.Ep) == old(base(s.Anno.Ep)) || fresh(s.Anno.Ep)) && (base(s.Src.Anno.Ep) == old(base(s.Src.Anno.Ep)) || fresh(s.Src.Anno.Ep)) && (base(s.Src.Ep) == old(base(s.Src.Ep)) || fresh(s.Src.Ep)) && (base(s.Event) == old(base(s.Event)) || fresh(s.Event)) && (base(s.Tag.Event) == old(base(s.Tag.Event)) || fresh(s.Tag.Event)) && (base(s.Anno.Event) == old(base(s.Anno.Event)) || fresh(s.Anno.Event)) && (base(s.Src.Anno.Event) == old(base(s.Src.Anno.Event)) || fresh(s.Src.Anno.Event)) && (base(s.Src.Event) == old(base(s.Src.Event)) || fresh(s.Src.Event)) && (base(s.Param) == old(base(s.Param)) || fresh(s.Param)) && (base(s.Tag.Param) == old(base(s.Tag.Param)) || fresh(s.Tag.Param)) && (base(s.Anno.Param) == old(base(s.Anno.Param)) || fresh(s.Anno.Param)) && (base(s.Src.Anno.Param) == old(base(s.Src.Anno.Param)) || fresh(s.Src.Anno.Param)) && (base(s.Src.Param) == old(base(s.Src.Param)) || fresh(s.Src.Param)) && (base(s.Stmt) == old(base(s.Stmt)) || fresh(s.Stmt)) && (base(s.Tag.Stmt) == old(base(s.Tag.Stmt)) || fresh(s.Tag.Stmt)) && (base(s.Anno.Stmt) == old(base(s.Anno.Stmt)) || fresh(s.Anno.Stmt)) && (base(s.Src.Anno.Stmt) == old(base(s.Src.Anno.Stmt)) || fresh(s.Src.Anno.Stmt)) && (base(s.Src.Stmt) == old(base(s.Src.Stmt)) || fresh(s.Src.Stmt))
+//@   errprop parseRestPath
+//@   errprop normalizeStatement
+
+// An application gives one App row, and every mixin, endpoint, type and view of it is handed to its normaliser.
+//@ func normalizeApp
+//@   requires [schema] s != nil
+//@   requires [model-wellformed] app != nil && app.Name != nil
+//@   modifies s.App, elems(s.App), s.Tag.App, elems(s.Tag.App), s.Anno.App, elems(s.Anno.App), s.Src.Anno.App, elems(s.Src.Anno.App), s.Src.App, elems(s.Src.App), s.Mixin, elems(s.Mixin), s.Tag.Mixin, elems(s.Tag.Mixin), s.Anno.Mixin, elems(s.Anno.Mixin), s.Src.Anno.Mixin, elems(s.Src.Anno.Mixin), s.Src.Mixin, elems(s.Src.Mixin), s.Ep, elems(s.Ep), s.Tag.Ep, elems(s.Tag.Ep), s.Anno.Ep, elems(s.Anno.Ep), s.Src.Anno.Ep, elems(s.Src.Anno.Ep), s.Src.Ep, elems(s.Src.Ep), s.Event, elems(s.Event), s.Tag.Event, elems(s.Tag.Event), s.Anno.Event, elems(s.Anno.Event), s.Src.Anno.Event, elems(s.Src.Anno.Event), s.Src.Event, elems(s.Src.Event), s.Param, elems(s.Param), s.Tag.Param, elems(s.Tag.Param), s.Anno.Param, elems(s.Anno.Param), s.Src.Anno.Param, elems(s.Src.Anno.Param), s.Src.Param, elems(s.Src.Param), s.Stmt, elems(s.Stmt), s.Tag.Stmt, elems(s.Tag.Stmt), s.Anno.Stmt, elems(s.Anno.Stmt), s.Src.Anno.Stmt, elems(s.Src.Anno.Stmt), s.Src.Stmt, elems(s.Src.Stmt), s.Type, elems(s.Type), s.Table, elems(s.Table), s.Alias, elems(s.Alias), s.Enum, elems(s.Enum), s.Field, elems(s.Field), s.Tag.Type, elems(s.Tag.Type), s.Anno.Type, elems(s.Anno.Type), s.Src.Anno.Type, elems(s.Src.Anno.Type), s.Src.Type, elems(s.Src.Type), s.Tag.Field, elems(s.Tag.Field), s.Anno.Field, elems(s.Anno.Field), s.Src.Anno.Field, elems(s.Src.Anno.Field), s.Src.Field, elems(s.Src.Field), s.View, elems(s.View), s.Tag.View, elems(s.Tag.View), s.Anno.View, elems(s.Anno.View), s.Src.Anno.View, elems(s.Src.Anno.View), s.Src.View, elems(s.Src.View)
+//@   perwrite
+//@   ensures [rows-live-in-own-arrays] (base(s.App) == old(base(s.App)) || fresh(s.App)) && (base(s.Tag.App) == old(base(s.Tag.App)) || fresh(s.Tag.App)) && (base(s.Anno.App) == old(base(s.Anno.App)) || fresh(s.Anno.App)) && (base(s.Src.Anno.App) == old(base(s.Src.Anno.App)) || fresh(s.Src.Anno.App)) && (base(s.Src.App) == old(base(s.Src.App)) || fresh(s.Src.App)) && (base(s.Mixin) == old(base(s.Mixin)) || fresh(s.Mixin)) && (base(s.Tag.Mixin) == old(base(s.Tag.Mixin)) || fresh(s.Tag.Mixin)) && (base(s.Anno.Mixin) == old(base(s.Anno.Mixin)) || fresh(s.Anno.Mixin)) && (base(s.Src.Anno.Mixin) == old(base(s.Src.Anno.Mixin)) || fresh(s.Src.Anno.Mixin)) && (base(s.Src.Mixin) == old(base(s.Src.Mixin)) || fresh(s.Src.Mixin)) && (base(s.Ep) == old(base(s.Ep)) || fresh(s.Ep)) && (base(s.Tag.Ep) == old(base(s.Tag.Ep)) || fresh(s.Tag.Ep)) && (base(s.Anno.Ep) == old(base(s.Anno.Ep)) || fresh(s.Anno.Ep)) && (base(s.Src.Anno.Ep) == old(base(s.Src.Anno.Ep)) || fresh(s.Src.Anno.Ep)) && (base(s.Src.Ep) == old(base(s.Src.Ep)) || fresh(s.Src.Ep)) && (base(s.Event) == old(base(s.Event)) || fresh(s.Event)) && (base(s.Tag.Event) == old(base(s.Tag.Event)) || fresh(s.Tag.Event)) && (base(s.Anno.Event) == old(base(s.Anno.Event)) || fresh(s.Anno.Event)) && (base(s.Src.Anno.Event) == old(base(s.Src.Anno.Event)) || fresh(s.Src.Anno.Event)) && (base(s.Src.Event) == old(base(s.Src.Event)) || fresh(s.Src.Event)) && (base(s.Param) == old(base(s.Param)) || fresh(s.Param)) && (base(s.Tag.Param) == old(base(s.Tag.Param)) || fresh(s.Tag.Param)) && (base(s.Anno.Param) == old(base(s.Anno.Param)) || fresh(s.Anno.Param)) && (base(s.Src.Anno.Param) == old(base(s.Src.Anno.Param)) || fresh(s.Src.Anno.Param)) && (base(s.Src.Param) == old(base(s.Src.Param)) || fresh(s.Src.Param)) && (base(s.Stmt) == old(base(s.Stmt)) || fresh(s.Stmt)) && (base(s.Tag.Stmt) == old(base(s.Tag.Stmt)) || fresh(s.Tag.Stmt)) && (base(s.Anno.Stmt) == old(base(s.Anno.Stmt)) || fresh(s.Anno.Stmt)) && (base(s.Src.Anno.Stmt) == old(base(s.Src.Anno.Stmt)) || fresh(s.Src.Anno.Stmt)) && (base(s.Src.Stmt) == old(base(s.Src.Stmt)) || fresh(s.Src.Stmt)) && (base(s.Type) == old(base(s.Type)) || fresh(s.Type)) && (base(s.Table) == old(base(s.Table)) || fresh(s.Table)) && (base(s.Alias) == old(base(s.Alias)) || fresh(s.Alias)) && (base(s.Enum) == old(base(s.Enum)) || fresh(s.Enum)) && (base(s.Field) == old(base(s.Field)) || fresh(s.Field)) && (base(s.Tag.Type) == old(base(s.Tag.Type)) || fresh(s.Tag.Type)) && (base(s.Anno.Type) == old(base(s.Anno.Type)) || fresh(s.Anno.Type)) && (base(s.Src.Anno.Type) == old(base(s.Src.Anno.Type)) || fresh(s.Src.Anno.Type)) && (base(s.Src.Type) == old(base(s.Src.Type)) || fresh(s.Src.Type)) && (base(s.Tag.Field) == old(base(s.Tag.Field)) || fresh(s.Tag.Field)) && (base(s.Anno.Field) == old(base(s.Anno.Field)) || fresh(s.Anno.Field)) && (base(s.Src.Anno.Field) == old(base(s.Src.Anno.Field)) || fresh(s.Src.Anno.Field)) && (base(s.Src.Field) == old(base(s.Src.Field)) || fresh(s.Src.Field)) && (base(s.View) == old(base(s.View)) || fresh(s.View)) && (base(s.Tag.View) == old(base(s.Tag.View)) || fresh(s.Tag.View)) && (base(s.Anno.View) == old(base(s.Anno.View)) || fresh(s.Anno.View)) && (base(s.Src.Anno.View) == old(base(s.Src.Anno.View)) || fresh(s.Src.Anno.View)) && (base(s.Src.View) == old(base(s.Src.View)) || fresh(s.Src.View))
+//@   ensures [one-row] result == nil ==> len(s.App) == old(len(s.App)) + 1 && s.App[len(s.App)-1].AppName == old(app.Name.Part) && s.App[len(s.App)-1].AppLongName == old(app.LongName)
+//@   ensures [rows-kept] forall(i, 0, old(len(s.App)), s.App[i] == old(s.App[i]))
+//@   ensures [one-mixin-row-per-mixin] result == nil ==> len(s.Mixin) == old(len(s.Mixin)) + old(len(app.Mixin2))
+//@   ensures [one-view-row-per-view] result == nil ==> len(s.View) == old(len(s.View)) + old(len(app.Views))
+//@   ensures [one-type-row-per-type] result == nil ==> len(s.Type) == old(len(s.Type)) + old(len(app.Types))
+//@   assert @call:arrai/relmod.normalizeMixin [own-mixin] arg0 == s && arg1 == app && arg2 == mixin
+//@   assert @call:arrai/relmod.normalizeEndpoint [own-endpoint] arg1 == s && arg2 == app && arg3 == ep
+//@   assert @call:arrai/relmod.normalizeType [own-type] arg0 == s && arg1 == app && arg2 == typ && arg3 == typeName
+//@   assert @call:arrai/relmod.normalizeView [own-view] arg0 == s && arg1 == app && arg2 == view && arg3 == viewName
+//@   ghostclear @iter:1 visited
+//@   ghostset @call:arrai/relmod.normalizeEndpoint visited
+//@   loop 1 step [every-endpoint-normalised] ghost("visited")
+//@   loop 0 invariant [counts-so-far] len(s.Mixin) == old(len(s.Mixin)) + rangeindex + 1 && rangeindex + 1 <= len(app.Mixin2)
+//@   loop 0 invariant [app-row-stays] len(s.App) == old(len(s.App)) + 1 && s.App[len(s.App)-1].AppName == old(app.Name.Part) && s.App[len(s.App)-1].AppLongName == old(app.LongName)
+//@   loop 0 invariant [app-rows-stay] forall(i, 0, old(len(s.App)), s.App[i] == old(s.App[i]))
+//@   loop 0 invariant [rows-live-in-own-arrays] (base(s.App) == old(base(s.App)) || fresh(s.App)) && (base(s.Tag.App) == old(base(s.Tag.App)) || fresh(s.Tag.App)) && (base(s.Anno.App) == old(base(s.Anno.App)) || fresh(s.Anno.App)) && (base(s.Src.Anno.App) == old(base(s.Src.Anno.App)) || fresh(s.Src.Anno.App)) && (base(s.Src.App) == old(base(s.Src.App)) || fresh(s.Src.App)) && (base(s.Mixin) == old(base(s.Mixin)) || fresh(s.Mixin)) && (base(s.Tag.Mixin) == old(base(s.Tag.Mixin)) || fresh(s.Tag.Mixin)) && (base(s.Anno.Mixin) == old(base(s.Anno.Mixin)) || fresh(s.Anno.Mixin)) && (base(s.Src.Anno.Mixin) == old(base(s.Src.Anno.Mixin)) || fresh(s.Src.Anno.Mixin)) && (base(s.Src.Mixin) == old(base(s.Src.Mixin)) || fresh(s.Src.Mixin)) && (base(s.Ep) == old(base(s.Ep)) || fresh(s.Ep)) && (base(s.Tag.Ep) == old(base(s.Tag.Ep)) || fresh(s.Tag.Ep)) && (base(s.Anno.Ep) == old(base(s.Anno.Ep)) || fresh(s.Anno.Ep)) && (base(s.Src.Anno.Ep) == old(base(s.Src.Anno.Ep)) || fresh(s.Src.Anno.Ep)) && (base(s.Src.Ep) == old(base(s.Src.Ep)) || fresh(s.Src.Ep)) && (base(s.Event) == old(base(s.Event)) || fresh(s.Event)) && (base(s.Tag.Event) == old(base(s.Tag.Event)) || fresh(s.Tag.Event)) && (base(s.Anno.Event) == old(base(s.Anno.Event)) || fresh(s.Anno.Event)) && (base(s.Src.Anno.Event) == old(base(s.Src.Anno.Event)) || fresh(s.Src.Anno.Event)) && (base(s.Src.Event) == old(base(s.Src.Event)) || fresh(s.Src.Event)) && (base(s.Param) == old(base(s.Param)) || fresh(s.Param)) && (base(s.Tag.Param) == old(base(s.Tag.Param)) || fresh(s.Tag.Param)) && (base(s.Anno.Param) == old(base(s.Anno.Param)) || fresh(s.Anno.Param)) && (base(s.Src.Anno.Param) == old(base(s.Src.Anno.Param)) || fresh(s.Src.Anno.Param)) && (base(s.Src.Param) == old(base(s.Src.Param)) || fresh(s.Src.Param)) && (base(s.Stmt) == old(base(s.Stmt)) || fresh(s.Stmt)) && (base(s.Tag.Stmt) == old(base(s.Tag.Stmt)) || fresh(s.Tag.Stmt)) && (base(s.Anno.Stmt) == old(base(s.Anno.Stmt)) || fresh(s.Anno.Stmt)) && (base(s.Src.Anno.Stmt) == old(base(s.Src.Anno.Stmt)) || fresh(s.Src.Anno.Stmt)) && (base(s.Src.Stmt) == old(base(s.Src.Stmt)) || fresh(s.Src.Stmt)) && (base(s.Type) == old(base(s.Type)) || fresh(s.Type)) && (base(s.Table) == old(base(s.Table)) || fresh(s.Table)) && (base(s.Alias) == old(base(s.Alias)) || fresh(s.Alias)) && (base(s.Enum) == old(base(s.Enum)) || fresh(s.Enum)) && (base(s.Field) == old(base(s.Field)) || fresh(s.Field)) && (base(s.Tag.Type) == old(base(s.Tag.Type)) || fresh(s.Tag.Type)) && (base(s.Anno.Type) == old(base(s.Anno.Type)) || fresh(s.Anno.Type)) && (base(s.Src.Anno.Type) == old(base(s.Src.Anno.Type)) || fresh(s.Src.Anno.Type)) && (base(s.Src.Type) == old(base(s.Src.Type)) || fresh(s.Src.Type)) && (base(s.Tag.Field) == old(base(s.Tag.Field)) || fresh(s.Tag.Field)) && (base(s.Anno.Field) == old(base(s.Anno.Field)) || fresh(s.Anno.Field)) && (base(s.Src.Anno.Field) == old(base(s.Src.Anno.Field)) || fresh(s.Src.Anno.Field)) && (base(s.Src.Field) == old(base(s.Src.Field)) || fresh(s.Src.Field)) && (base(s.View) == old(base(s.View)) || fresh(s.View)) && (base(s.Tag.View) == old(base(s.Tag.View)) || fresh(s.Tag.View)) && (base(s.Anno.View) == old(base(s.Anno.View)) || fresh(s.Anno.View)) && (base(s.Src.Anno.View) == old(base(s.Src.Anno.View)) || fresh(s.Src.Anno.View)) && (base(s.Src.View) == old(base(s.Src.View)) || fresh(s.Src.View))
+//@   loop 1 invariant [counts-so-far] len(s.Mixin) == old(len(s.Mixin)) + len(app.Mixin2)
+//@   loop 1 invariant [app-row-stays] len(s.App) == old(len(s.App)) + 1 && s.App[len(s.App)-1].AppName == old(app.Name.Part) && s.App[len(s.App)-1].AppLongName == old(app.LongName)
+//@   loop 1 invariant [app-rows-stay] forall(i, 0, old(len(s.App)), s.App[i] == old(s.App[i]))
+//@   loop 1 invariant [rows-live-in-own-arrays] (base(s.App) == old(base(s.App)) || fresh(s.App)) && (base(s.Tag.App) == old(base(s.Tag.App)) || fresh(s.Tag.App)) && (base(s.Anno.App) == old(base(s.Anno.App)) || fresh(s.Anno.App)) && (base(s.Src.Anno.App) == old(base(s.Src.Anno.App)) || fresh(s.Src.Anno.App)) && (base(s.Src.App) == old(base(s.Src.App)) || fresh(s.Src.App)) && (base(s.Mixin) == old(base(s.Mixin)) || fresh(s.Mixin)) && (base(s.Tag.Mixin) == old(base(s.Tag.Mixin)) || fresh(s.Tag.Mixin)) && (base(s.Anno.Mixin) == old(base(s.Anno.Mixin)) || fresh(s.Anno.Mixin)) && (base(s.Src.Anno.Mixin) == old(base(s.Src.Anno.Mixin)) || fresh(s.Src.Anno.Mixin)) && (base(s.Src.Mixin) == old(base(s.Src.Mixin)) || fresh(s.Src.Mixin)) && (base(s.Ep) == old(base(s.Ep)) || fresh(s.Ep)) && (base(s.Tag.Ep) == old(base(s.Tag.Ep)) || fresh(s.Tag.Ep)) && (base(s.Anno.Ep) == old(base(s.Anno.Ep)) || fresh(s.Anno.Ep)) && (base(s.Src.Anno.Ep) == old(base(s.Src.Anno.Ep)) || fresh(s.Src.Anno.Ep)) && (base(s.Src.Ep) == old(base(s.Src.Ep)) || fresh(s.Src.Ep)) && (base(s.Event) == old(base(s.Event)) || fresh(s.Event)) && (base(s.Tag.Event) == old(base(s.Tag.Event)) || fresh(s.Tag.Event)) && (base(s.Anno.Event) == old(base(s.Anno.Event)) || fresh(s.Anno.Event)) && (base(s.Src.Anno.Event) == old(base(s.Src.Anno.Event)) || fresh(s.Src.Anno.Event)) && (base(s.Src.Event) == old(base(s.Src.Event)) || fresh(s.Src.Event)) && (base(s.Param) == old(base(s.Param)) || fresh(s.Param)) && (base(s.Tag.Param) == old(base(s.Tag.Param)) || fresh(s.Tag.Param)) && (base(s.Anno.Param) == old(base(s.Anno.Param)) || fresh(s.Anno.Param)) && (base(s.Src.Anno.Param) == old(base(s.Src.Anno.Param)) || fresh(s.Src.Anno.Param)) && (base(s.Src.Param) == old(base(s.Src.Param)) || fresh(s.Src.Param)) && (base(s.Stmt) == old(base(s.Stmt)) || fresh(s.Stmt)) && (base(s.Tag.Stmt) == old(base(s.Tag.Stmt)) || fresh(s.Tag.Stmt)) && (base(s.Anno.Stmt) == old(base(s.Anno.Stmt)) || fresh(s.Anno.Stmt)) && (base(s.Src.Anno.Stmt) == old(base(s.Src.Anno.Stmt)) || fresh(s.Src.Anno.Stmt)) && (base(s.Src.Stmt) == old(base(s.Src.Stmt)) || fresh(s.Src.Stmt)) && (base(s.Type) == old(base(s.Type)) || fresh(s.Type)) && (base(s.Table) == old(base(s.Table)) || fresh(s.Table)) && (base(s.Alias) == old(base(s.Alias)) || fresh(s.Alias)) && (base(s.Enum) == old(base(s.Enum)) || fresh(s.Enum)) && (base(s.Field) == old(base(s.Field)) || fresh(s.Field)) && (base(s.Tag.Type) == old(base(s.Tag.Type)) || fresh(s.Tag.Type)) && (base(s.Anno.Type) == old(base(s.Anno.Type)) || fresh(s.Anno.Type)) && (base(s.Src.Anno.Type) == old(base(s.Src.Anno.Type)) || fresh(s.Src.Anno.Type)) && (base(s.Src.Type) == old(base(s.Src.Type)) || fresh(s.Src.Type)) && (base(s.Tag.Field) == old(base(s.Tag.Field)) || fresh(s.Tag.Field)) && (base(s.Anno.Field) == old(base(s.Anno.Field)) || fresh(s.Anno.Field)) && (base(s.Src.Anno.Field) == old(base(s.Src.Anno.Field)) || fresh(s.Src.Anno.Field)) && (base(s.Src.Field) == old(base(s.Src.Field)) || fresh(s.Src.Field)) && (base(s.View) == old(base(s.View)) || fresh(s.View)) && (base(s.Tag.View) == old(base(s.Tag.View)) || fresh(s.Tag.View)) && (base(s.Anno.View) == old(base(s.Anno.View)) || fresh(s.Anno.View)) && (base(s.Src.Anno.View) == old(base(s.Src.Anno.View)) || fresh(s.Src.Anno.View)) && (base(s.Src.View) == old(base(s.Src.View)) || fresh(s.Src.View))
+//@   loop 2 invariant [counts-so-far] len(s.Mixin) == old(len(s.Mixin)) + len(app.Mixin2) && len(s.Type) == old(len(s.Type)) + rangeindex + 1
+//@   loop 2 invariant [app-row-stays] len(s.App) == old(len(s.App)) + 1 && s.App[len(s.App)-1].AppName == old(app.Name.Part) && s.App[len(s.App)-1].AppLongName == old(app.LongName)
+//@   loop 2 invariant [app-rows-stay] forall(i, 0, old(len(s.App)), s.App[i] == old(s.App[i]))
+//@   loop 2 invariant [rows-live-in-own-arrays] (base(s.App) == old(base(s.App)) || fresh(s.App)) && (base(s.Tag.App) == old(base(s.Tag.App)) || fresh(s.Tag.App)) && (base(s.Anno.App) == old(base(s.Anno.App)) || fresh(s.Anno.App)) && (base(s.Src.Anno.App) == old(base(s.Src.Anno.App)) || fresh(s.Src.Anno.App)) && (base(s.Src.App) == old(base(s.Src.App)) || fresh(s.Src.App)) && (base(s.Mixin) == old(base(s.Mixin)) || fresh(s.Mixin)) && (base(s.Tag.Mixin) == old(base(s.Tag.Mixin)) || fresh(s.Tag.Mixin)) && (base(s.Anno.Mixin) == old(base(s.Anno.Mixin)) || fresh(s.Anno.Mixin)) && (base(s.Src.Anno.Mixin) == old(base(s.Src.Anno.Mixin)) || fresh(s.Src.Anno.Mixin)) && (base(s.Src.Mixin) == old(base(s.Src.Mixin)) || fresh(s.Src.Mixin)) && (base(s.Ep) == old(base(s.Ep)) || fresh(s.Ep)) && (base(s.Tag.Ep) == old(base(s.Tag.Ep)) || fresh(s.Tag.Ep)) && (base(s.Anno.Ep) == old(base(s.Anno.Ep)) || fresh(s.Anno.Ep)) && (base(s.Src.Anno.Ep) == old(base(s.Src.Anno.Ep)) || fresh(s.Src.Anno.Ep)) && (base(s.Src.Ep) == old(base(s.Src.Ep)) || fresh(s.Src.Ep)) && (base(s.Event) == old(base(s.Event)) || fresh(s.Event)) && (base(s.Tag.Event) == old(base(s.Tag.Event)) || fresh(s.Tag.Event)) && (base(s.Anno.Event) == old(base(s.Anno.Event)) || fresh(s.Anno.Event)) && (base(s.Src.Anno.Event) == old(base(s.Src.Anno.Event)) || fresh(s.Src.Anno.Event)) && (base(s.Src.Event) == old(base(s.Src.Event)) || fresh(s.Src.Event)) && (base(s.Param) == old(base(s.Param)) || fresh(s.Param)) && (base(s.Tag.Param) == old(base(s.Tag.Param)) || fresh(s.Tag.Param)) && (base(s.Anno.Param) == old(base(s.Anno.Param)) || fresh(s.Anno.Param)) && (base(s.Src.Anno.Param) == old(base(s.Src.Anno.Param)) || fresh(s.Src.Anno.Param)) && (base(s.Src.Param) == old(base(s.Src.Param)) || fresh(s.Src.Param)) && (base(s.Stmt) == old(base(s.Stmt)) || fresh(s.Stmt)) && (base(s.Tag.Stmt) == old(base(s.Tag.Stmt)) || fresh(s.Tag.Stmt)) && (base(s.Anno.Stmt) == old(base(s.Anno.Stmt)) || fresh(s.Anno.Stmt)) && (base(s.Src.Anno.Stmt) == old(base(s.Src.Anno.Stmt)) || fresh(s.Src.Anno.Stmt)) && (base(s.Src.Stmt) == old(base(s.Src.Stmt)) || fresh(s.Src.Stmt)) && (base(s.Type) == old(base(s.Type)) || fresh(s.Type)) && (base(s.Table) == old(base(s.Table)) || fresh(s.Table)) && (base(s.Alias) == old(base(s.Alias)) || fresh(s.Alias)) && (base(s.Enum) == old(base(s.Enum)) || fresh(s.Enum)) && (base(s.Field) == old(base(s.Field)) || fresh(s.Field)) && (base(s.Tag.Type) == old(base(s.Tag.Type)) || fresh(s.Tag.Type)) && (base(s.Anno.Type) == old(base(s.Anno.Type)) || fresh(s.Anno.Type)) && (base(s.Src.Anno.Type) == old(base(s.Src.Anno.Type)) || fresh(s.Src.Anno.Type)) && (base(s.Src.Type) == old(base(s.Src.Type)) || fresh(s.Src.Type)) && (base(s.Tag.Field) == old(base(s.Tag.Field)) || fresh(s.Tag.Field)) && (base(s.Anno.Field) == old(base(s.Anno.Field)) || fresh(s.Anno.Field)) && (base(s.Src.Anno.Field) == old(base(s.Src.Anno.Field)) || fresh(s.Src.Anno.Field)) && (base(s.Src.Field) == old(base(s.Src.Field)) || fresh(s.Src.Field)) && (base(s.View) == old(base(s.View)) || fresh(s.View)) && (base(s.Tag.View) == old(base(s.Tag.View)) || fresh(s.Tag.View)) && (base(s.Anno.View) == old(base(s.Anno.View)) || fresh(s.Anno.View)) && (base(s.Src.Anno.View) == old(base(s.Src.Anno.View)) || fresh(s.Src.Anno.View)) && (base(s.Src.View) == old(base(s.Src.View)) || fresh(s.Src.View))
+//@   loop 3 invariant [counts-so-far] len(s.Mixin) == old(len(s.Mixin)) + len(app.Mixin2) && len(s.Type) == old(len(s.Type)) + len(app.Types) && len(s.View) == old(len(s.View)) + rangeindex + 1
+//@   loop 3 invariant [app-row-stays] len(s.App) == old(len(s.App)) + 1 && s.App[len(s.App)-1].AppName == old(app.Name.Part) && s.App[len(s.App)-1].AppLongName == old(app.LongName)
+//@   loop 3 invariant [app-rows-stay] forall(i, 0, old(len(s.App)), s.App[i] == old(s.App[i]))
+//@   loop 3 invariant [rows-live-in-own-arrays] (base(s.App) == old(base(s.App)) || fresh(s.App)) && (base(s.Tag.App) == old(base(s.Tag.App)) || fresh(s.Tag.App)) && (base(s.Anno.App) == old(base(s.Anno.App)) || fresh(s.Anno.App)) && (base(s.Src.Anno.App) == old(base(s.Src.Anno.App)) || fresh(s.Src.Anno.App)) && (base(s.Src.App) == old(base(s.Src.App)) || fresh(s.Src.App)) && (base(s.Mixin) == old(base(s.Mixin)) || fresh(s.Mixin)) && (base(s.Tag.Mixin) == old(base(s.Tag.Mixin)) || fresh(s.Tag.Mixin)) && (base(s.Anno.Mixin) == old(base(s.Anno.Mixin)) || fresh(s.Anno.Mixin)) && (base(s.Src.Anno.Mixin) == old(base(s.Src.Anno.Mixin)) || fresh(s.Src.Anno.Mixin)) && (base(s.Src.Mixin) == old(base(s.Src.Mixin)) || fresh(s.Src.Mixin)) && (base(s.Ep) == old(base(s.Ep)) || fresh(s.Ep)) && (base(s.Tag.Ep) == old(base(s.Tag.Ep)) || fresh(s.Tag.Ep)) && (base(s.Anno.Ep) == old(base(s.Anno.Ep)) || fresh(s.Anno.Ep)) && (base(s.Src.Anno.Ep) == old(base(s.Src.Anno.Ep)) || fresh(s.Src.Anno.Ep)) && (base(s.Src.Ep) == old(base(s.Src.Ep)) || fresh(s.Src.Ep)) && (base(s.Event) == old(base(s.Event)) || fresh(s.Event)) && (base(s.Tag.Event) == old(base(s.Tag.Event)) || fresh(s.Tag.Event)) && (base(s.Anno.Event) == old(base(s.Anno.Event)) || fresh(s.Anno.Event)) && (base(s.Src.Anno.Event) == old(base(s.Src.Anno.Event)) || fresh(s.Src.Anno.Event)) && (base(s.Src.Event) == old(base(s.Src.Event)) || fresh(s.Src.Event)) && (base(s.Param) == old(base(s.Param)) || fresh(s.Param)) && (base(s.Tag.Param) == old(base(s.Tag.Param)) || fresh(s.Tag.Param)) && (base(s.Anno.Param) == old(base(s.Anno.Param)) || fresh(s.Anno.Param)) && (base(s.Src.Anno.Param) == old(base(s.Src.Anno.Param)) || fresh(s.Src.Anno.Param)) && (base(s.Src.Param) == old(base(s.Src.Param)) || fresh(s.Src.Param)) && (base(s.Stmt) == old(base(s.Stmt)) || fresh(s.Stmt)) && (base(s.Tag.Stmt) == old(base(s.Tag.Stmt)) || fresh(s.Tag.Stmt)) && (base(s.Anno.Stmt) == old(base(s.Anno.Stmt)) || fresh(s.Anno.Stmt)) && (base(s.Src.Anno.Stmt) == old(base(s.Src.Anno.Stmt)) || fresh(s.Src.Anno.Stmt)) && (base(s.Src.Stmt) == old(base(s.Src.Stmt)) || fresh(s.Src.Stmt)) && (base(s.Type) == old(base(s.Type)) || fresh(s.Type)) && (base(s.Table) == old(base(s.Table)) || fresh(s.Table)) && (base(s.Alias) == old(base(s.Alias)) || fresh(s.Alias)) && (base(s.Enum) == old(base(s.Enum)) || fresh(s.Enum)) && (base(s.Field) == old(base(s.Field)) || fresh(s.Field)) && (base(s.Tag.Type) == old(base(s.Tag.Type)) || fresh(s.Tag.Type)) && (base(s.Anno.Type) == old(base(s.Anno.Type)) || fresh(s.Anno.Type)) && (base(s.Src.Anno.Type) == old(base(s.Src.Anno.Type)) || fresh(s.Src.Anno.Type)) && (base(s.Src.Type) == old(base(s.Src.Type)) || fresh(s.Src.Type)) && (base(s.Tag.Field) == old(base(s.Tag.Field)) || fresh(s.Tag.Field)) && (base(s.Anno.Field) == old(base(s.Anno.Field)) || fresh(s.Anno.Field)) && (base(s.Src.Anno.Field) == old(base(s.Src.Anno.Field)) || fresh(s.Src.Anno.Field)) && (base(s.Src.Field) == old(base(s.Src.Field)) || fresh(s.Src.Field)) && (base(s.View) == old(base(s.View)) || fresh(s.View)) && (base(s.Tag.View) == old(base(s.Tag.View)) || fresh(s.Tag.View)) && (base(s.Anno.View) == old(base(s.Anno.View)) || fresh(s.Anno.View)) && (base(s.Src.Anno.View) == old(base(s.Src.Anno.View)) || fresh(s.Src.Anno.View)) && (base(s.Src.View) == old(base(s.Src.View)) || fresh(s.Src.View))
+//@   errprop normalizeEndpoint
+
+// The module: imports first, then every application in alphabetical order of its map key.
+//@ func normalizeModule
+//@   requires [schema] s != nil
+//@   requires [model-wellformed] m != nil
+//@   assert @call:arrai/relmod.normalizeApp [own-application] arg1 == s && arg2 == m.Apps[name]
+//@   ghostclear @iter:1 visited
+//@   ghostset @call:arrai/relmod.normalizeApp visited
+//@   loop 1 step [every-application-normalised] ghost("visited")
+//@   errprop normalizeApp
+
+//@ func Normalize
+//@   requires [model-wellformed] m != nil
+//@   ensures [schema-or-error] (result1 == nil) == (result0 != nil)
+//@   errprop withPayloadParser
+//@   errprop normalizeModule
+
